@@ -1,158 +1,27 @@
-(* Component `lowerstmt`: a compiler-correctness theorem for the statement fragment F_stmt
-   (DESIGN C01_partial), built on LowerBoolProofs (expressions).
+(* Component `lowerstmt`: compiler-correctness theorems for the statement / function / program
+   fragment F_stmt (DESIGN C01), built on LowerBoolProofs (expressions) and on the source semantics
+   of LowerStmtSem.v.
 
    Structure
-     1  SOURCE SEMANTICS, independent of the lowering: stores, expression evaluation (left to right,
-        short-circuit, wrap-around, signed comparison), a big-step relation with outcomes
-        Normal / Break / Continue and output bytes as events
      2  static well-formedness of the compile-time environment (wf_senv), well-scoped programs,
-        the representation relation `rep S σ m` (memory m holds store σ in the frame laid out by S)
+        the representation relation `rep S s m` (memory m holds store s in the frame laid out by S)
      3  machine lemmas for the instructions new in this fragment (yield, lbs, stores of operands)
-     4  the statements without control flow
-     5  stmts_runs: the induction over the big-step derivation (if, while, break, continue, blocks)
-     6  theorems on resolved code: stmts_lowering_correct, body_lowering_correct (implicit return),
-        the divergence corollary; label freshness; satisfiability examples *)
+     4  the statements without control flow; library calls (write_int / write_bool through
+        CallProtocol.call_idiom); division with the checked build's guard; return; the call of a
+        function of the program (push_args_runs, user_call_runs)
+     5  stmts_runs: ONE induction over the big-step derivation for statements, statement lists and
+        calls (recursion is a finite derivation): if, while, break, continue, blocks, calls with
+        the callee's entry stack guard, returns, faults
+     6  label freshness; theorems on resolved code: stmts_lowering_correct(_gen), body_lowering_correct
+     8  whole programs: the executable static check, lower_funs_placed, init_ok,
+        program_lowering_correct, program_never_halts; satisfiability examples on the verified VM *)
 From Coq Require Import ZArith List Bool Lia.
 From HidV Require Import Machine Halts VM Driver WordLemmas MemLemmas GenTables GenStdlib OpTables Idioms
                          Guards StepTactics StdlibBase StdlibStubs DecimalSpec StdlibInt StdlibBool CallProtocol
-                         LowerBoolModel LowerBoolProofs LowerStmtModel.
+                         LowerBoolModel LowerBoolProofs LowerStmtModel LowerStmtSem.
 Import ListNotations.
 Open Scope Z_scope.
 Ltac Zify.zify_post_hook ::= Z.to_euclidean_division_equations.
-
-(* ================================================================================= *)
-(* 1  source semantics                                                                *)
-(* ================================================================================= *)
-(* a store: the values of the int locals in scope (signed, in range) and of the bool locals
-   (0 / 1), in declaration order *)
-Record store := mkstore { si : list Z; sb : list Z }.
-Fixpoint upd (i : nat) (v : Z) (l : list Z) : list Z :=
-  match l, i with
-  | [], _ => []
-  | _ :: r, O => v :: r
-  | x :: r, S k => x :: upd k v r
-  end.
-(* leaving a block: the locals declared inside disappear *)
-Definition trunc (s0 s : store) : store :=
-  mkstore (firstn (length (si s0)) (si s)) (firstn (length (sb s0)) (sb s)).
-
-(* how a run of a statement list can end.  Faults are the run-time checks of a checked build. *)
-Inductive fault := FDivZero | FStackOverflow.
-Inductive outcome := ONormal | OBreak | OContinue | OReturn (v : option Z) | OFault (f : fault).
-(* how a call ends *)
-Inductive cres := CRet (v : option Z) | CFault (f : fault).
-(* outcomes that leave the enclosing function *)
-Definition leaves (out : outcome) : Prop := match out with OReturn _ | OFault _ => True | _ => False end.
-Lemma outcome_normal_dec (out : outcome) : {out = ONormal} + {out <> ONormal}.
-Proof. destruct out; [left; reflexivity | right; discriminate ..]. Qed.
-
-Section Source.
-Variable w : Z.
-Variable funs : list fundef.           (* the program: function 0 is the entry point *)
-(* two's-complement wrap-around of the word size *)
-Definition swrap (v : Z) : Z := Machine.sgn w (Machine.wrap w v).
-Fixpoint ieval (s : store) (o : iopd) : Z :=
-  match o with
-  | OLit z => z
-  | OVar i => nth i (si s) 0
-  | OArith op x y => swrap (arith_sem op (ieval s x) (ieval s y))
-  | OUn UNeg x => swrap (- ieval s x)
-  | OUn UPos x => ieval s x
-  end.
-Fixpoint bevals (s : store) (e : bexpr) : bool :=
-  match e with
-  | BLit b => b
-  | BVar j => negb (nth j (sb s) 0 =? 0)
-  | BCmp op a b => cmp_sem op (ieval s a) (ieval s b)
-  | BNot e1 => negb (bevals s e1)
-  | BAnd e1 e2 => bevals s e1 && bevals s e2          (* right operand has no effects: && is short-circuit *)
-  | BOr e1 e2 => bevals s e1 || bevals s e2
-  end.
-Definition wbyte (s : store) (x : wexpr) : Z :=
-  match x with WrLit z => z mod 256 | WrChar c => c mod 256 | WrByte o => ieval s o mod 256 end.
-
-(* STACK ACCOUNTING.  The checked build guards every function entry: the function faults with
-   stack_overflow unless the bytes between its frame pointer and the bottom of the stack are at
-   least its frame size `fun_need` (the constant of its guard).  The semantics carries d, the
-   number of bytes available to the current frame; the frame in use is the return address and the
-   locals in scope. *)
-Definition frame_top (s : store) : Z := w * (1 + Z.of_nat (length (si s))) + Z.of_nat (length (sb s)).
-(* what a call leaves in the caller's store *)
-Definition dest_store (dst : dest) (v : option Z) (s s' : store) : Prop :=
-  match dst with
-  | DNone => s' = s
-  | DDecl => exists x, v = Some x /\ s' = mkstore (si s ++ [x]) (sb s)
-  | DAssign i => exists x, v = Some x /\ (i < length (si s))%nat /\ s' = mkstore (upd i x (si s)) (sb s)
-  end.
-
-(* exec d s σ out_bytes outcome σ' *)
-Inductive exec : Z -> stmt -> store -> list Z -> outcome -> store -> Prop :=
-| X_decli d o s : exec d (SDeclI o) s [] ONormal (mkstore (si s ++ [ieval s o]) (sb s))
-| X_assi d i o s : (i < length (si s))%nat ->
-    exec d (SAssignI i o) s [] ONormal (mkstore (upd i (ieval s o) (si s)) (sb s))
-| X_declb d e s : exec d (SDeclB e) s [] ONormal (mkstore (si s) (sb s ++ [b2z (bevals s e)]))
-| X_assb d j e s : (j < length (sb s))%nat ->
-    exec d (SAssignB j e) s [] ONormal (mkstore (si s) (upd j (b2z (bevals s e)) (sb s)))
-| X_write d x s : exec d (SWrite x) s [wbyte s x] ONormal s
-| X_writeln d s : exec d SWriteln s [10] ONormal s
-| X_writei d ln o s :                                 (* the decimal representation of the value *)
-    exec d (SWriteI ln o) s (decimal (ieval s o) ++ (if ln then [10] else [])) ONormal s
-| X_writeb d ln e s :                                 (* "true" / "false" *)
-    exec d (SWriteB ln e) s ((if bevals s e then str_true else str_false) ++ (if ln then [10] else [])) ONormal s
-| X_if d c s1 s2 s evs out s' :
-    execs d (if bevals s c then s1 else s2) s evs out s' -> exec d (SIf c s1 s2) s evs out (trunc s s')
-| X_while_false d c b k s : bevals s c = false -> exec d (SWhile c b k) s [] ONormal s
-| X_while_break d c b k s evs s1 : bevals s c = true ->
-    execs d b s evs OBreak s1 -> exec d (SWhile c b k) s evs ONormal (trunc s s1)
-| X_while_leave d c b k s evs out s1 : bevals s c = true ->          (* the body returns or faults *)
-    execs d b s evs out s1 -> leaves out -> exec d (SWhile c b k) s evs out (trunc s s1)
-| X_while_cont_exit d c b k s e1 out1 s1 e2 out2 s2 : bevals s c = true ->
-    execs d b s e1 out1 s1 -> out1 = ONormal \/ out1 = OContinue ->
-    execs d k (trunc s s1) e2 out2 s2 -> out2 <> ONormal ->          (* the continuation does not complete *)
-    exec d (SWhile c b k) s (e1 ++ e2) out2 (trunc s s2)
-| X_while_next d c b k s e1 out1 s1 e2 s2 e3 out3 s3 : bevals s c = true ->
-    execs d b s e1 out1 s1 -> out1 = ONormal \/ out1 = OContinue ->  (* the body completes or continues *)
-    execs d k (trunc s s1) e2 ONormal s2 ->                          (* the continuation of a `for` *)
-    exec d (SWhile c b k) (trunc s s2) e3 out3 s3 ->
-    exec d (SWhile c b k) s (e1 ++ e2 ++ e3) out3 s3
-| X_block d ss s evs out s' : execs d ss s evs out s' -> exec d (SBlock ss) s evs out (trunc s s')
-| X_break d s : exec d SBreak s [] OBreak s
-| X_continue d s : exec d SContinue s [] OContinue s
-(* division in a checked build: a zero divisor is the fault division_by_zero *)
-| X_decldiv d op a b s : ieval s b <> 0 ->
-    exec d (SDeclDiv op a b) s [] ONormal (mkstore (si s ++ [swrap (arith_sem op (ieval s a) (ieval s b))]) (sb s))
-| X_decldiv_fault d op a b s : ieval s b = 0 -> exec d (SDeclDiv op a b) s [] (OFault FDivZero) s
-| X_assdiv d i op a b s : (i < length (si s))%nat -> ieval s b <> 0 ->
-    exec d (SAssignDiv i op a b) s [] ONormal (mkstore (upd i (swrap (arith_sem op (ieval s a) (ieval s b))) (si s)) (sb s))
-| X_assdiv_fault d i op a b s : ieval s b = 0 -> exec d (SAssignDiv i op a b) s [] (OFault FDivZero) s
-(* calls: the arguments are evaluated left to right in the caller's store *)
-| X_call d dst f args s evs v s' :
-    callf (d - frame_top s) f (map (ieval s) args) evs (CRet v) -> dest_store dst v s s' ->
-    exec d (SCall dst f args) s evs ONormal s'
-| X_call_fault d dst f args s evs ft :
-    callf (d - frame_top s) f (map (ieval s) args) evs (CFault ft) ->
-    exec d (SCall dst f args) s evs (OFault ft) s
-| X_return d s : exec d (SReturn None) s [] (OReturn None) s
-| X_return_val d o s : exec d (SReturn (Some o)) s [] (OReturn (Some (ieval s o))) s
-with execs : Z -> stmts -> store -> list Z -> outcome -> store -> Prop :=
-| XS_nil d s : execs d SNil s [] ONormal s
-| XS_cons d s r s0 e1 s1 e2 out s2 :
-    exec d s s0 e1 ONormal s1 -> execs d r s1 e2 out s2 -> execs d (SCons s r) s0 (e1 ++ e2) out s2
-| XS_exit d s r s0 e1 out s1 :
-    exec d s s0 e1 out s1 -> out <> ONormal -> execs d (SCons s r) s0 e1 out s1
-(* callf d f args events result: function f called with d bytes below its frame pointer *)
-with callf : Z -> nat -> list Z -> list Z -> cres -> Prop :=
-| CF_overflow d f vs fd : nth_error funs f = Some fd -> d < fun_need w fd ->
-    callf d f vs [] (CFault FStackOverflow)
-| CF_return d f vs fd evs v s1 : nth_error funs f = Some fd -> fun_need w fd <= d ->
-    execs d (fn_body fd) (mkstore vs []) evs (OReturn v) s1 -> callf d f vs evs (CRet v)
-| CF_fault d f vs fd evs ft s1 : nth_error funs f = Some fd -> fun_need w fd <= d ->
-    execs d (fn_body fd) (mkstore vs []) evs (OFault ft) s1 -> callf d f vs evs (CFault ft).
-End Source.
-Scheme exec_ind2 := Minimality for exec Sort Prop
-  with execs_ind2 := Minimality for execs Sort Prop
-  with callf_ind2 := Minimality for callf Sort Prop.
-Combined Scheme exec_execs_ind from exec_ind2, execs_ind2, callf_ind2.
 
 (* ================================================================================= *)
 (* 2  well-formed environments, well-scoped programs, representation                   *)
@@ -1882,67 +1751,74 @@ Proof.
     replace (q + 2) with (q + 1 + 1) by lia. exact Rs.
   - apply (fagree_trans w R lo fb Hw m m1); [exact L | apply (agree_fagree w R lo fb S s m m1 Wf Rp A1) | exact Fa].
 Qed.
+Lemma need_args_ge args : forall S, 0 <= ws S -> top S + Z.of_nat (length args) * ws S <= need_args S args.
+Proof.
+  induction args as [|o r IH]; intros S H; cbn [need_args length]; [lia|].
+  specialize (IH (after_ra S) H). cbn [after_ra top ws] in IH. unfold zmax. lia.
+Qed.
 (* the stack in use is the frame the environment describes *)
 Lemma tight_frame_top S s m : tight S -> rep S s m -> frame_top w s = top S.
 Proof. intros T Rp. unfold frame_top. rewrite (rp_li w R lo S s m Rp), (rp_lb w R lo S s m Rp). symmetry. exact T. Qed.
 
+Ltac fin_normal Rn Fa := split; [reflexivity|]; split; [exact Rn|]; split; [exact Fa|].
 Theorem stmts_runs :
-  (forall s s0 evs out s1, exec w s s0 evs out s1 -> stmt_spec s s0 evs out s1) /\
-  (forall ss s0 evs out s1, execs w ss s0 evs out s1 -> stmts_spec ss s0 evs out s1).
+  (forall d s s0 evs out s1, exec w funs d s s0 evs out s1 -> stmt_spec d s s0 evs out s1) /\
+  (forall d ss s0 evs out s1, execs w funs d ss s0 evs out s1 -> stmts_spec d ss s0 evs out s1) /\
+  (forall d f vs evs res, callf w funs d f vs evs res -> call_spec d f vs evs res).
 Proof.
-  apply (exec_execs_ind w stmt_spec stmts_spec).
+  apply (exec_execs_ind w funs stmt_spec stmts_spec call_spec).
   - (* int x = o *)
-    intros o s S li st C S' st' ex p m Ev P Wf Rp Sc Hn. cbn [lower_stmt] in Ev. inversion Ev; subst C S' st' ex; clear Ev.
+    intros d o s S li st C S' st' ex p m Ev P Wf Tg Rp Hd Sc Hn. cbn [lower_stmt] in Ev. inversion Ev; subst C S' st' ex; clear Ev.
     cbn [need_stmt fst sscoped] in *. apply need_max in Hn. destruct Hn as [Hn1 Hn2]. rewrite (wfs_w w fb S Wf) in Hn2.
     destruct (decl_int_runs S s m o p Wf Rp Sc Hn1 Hn2 P) as [m' [Rn [Rp' Fa]]].
-    exists m', (p + size (decl_int S o)). split; [reflexivity|]. split; [exact Rn|]. split; [apply (agree_fagree w R lo fb S s m m' Wf Rp Fa)|].
+    exists m', (p + size (decl_int S o)). fin_normal Rn (agree_fagree w R lo fb S s m m' Wf Rp Fa).
     split; [exact Rp' | apply wf_push_int; exact Wf].
   - (* xi = o *)
-    intros i o s Hi S li st C S' st' ex p m Ev P Wf Rp Sc Hn. cbn [lower_stmt] in Ev. inversion Ev; subst C S' st' ex; clear Ev.
+    intros d i o s Hi S li st C S' st' ex p m Ev P Wf Tg Rp Hd Sc Hn. cbn [lower_stmt] in Ev. inversion Ev; subst C S' st' ex; clear Ev.
     cbn [need_stmt fst sscoped] in *. destruct Sc as [Si So].
     destruct (assign_int_runs S s m i o p Wf Rp Si So Hn P) as [m' [Rn [Rp' Fa]]].
-    exists m', (p + size (assign_int S i o)). split; [reflexivity|]. split; [exact Rn|]. split; [exact Fa|]. split; assumption.
+    exists m', (p + size (assign_int S i o)). fin_normal Rn Fa. split; assumption.
   - (* bool p = e *)
-    intros e s S li st C S' st' ex p m Ev P Wf Rp Sc Hn. cbn [lower_stmt] in Ev.
+    intros d e s S li st C S' st' ex p m Ev P Wf Tg Rp Hd Sc Hn. cbn [lower_stmt] in Ev.
     destruct (declare_bool (env_of S) e st) as [c st1] eqn:Ed. inversion Ev; subst C S' st' ex; clear Ev.
     cbn [sscoped] in Sc.
     destruct (declare_bool_runs S s m e st c st1 p Wf Rp Sc Hn Ed P) as [m' [Rn [Rp' Fa]]].
-    exists m', (p + size c). split; [reflexivity|]. split; [exact Rn|]. split; [apply (agree_fagree w R lo fb S s m m' Wf Rp Fa)|].
+    exists m', (p + size c). fin_normal Rn (agree_fagree w R lo fb S s m m' Wf Rp Fa).
     split; [exact Rp' | apply wf_push_bool; exact Wf].
   - (* pj = e *)
-    intros j e s Hj S li st C S' st' ex p m Ev P Wf Rp Sc Hn. cbn [lower_stmt] in Ev.
+    intros d j e s Hj S li st C S' st' ex p m Ev P Wf Tg Rp Hd Sc Hn. cbn [lower_stmt] in Ev.
     destruct (assign_bool (env_of S) (nth j (boffs S) 0) e st) as [c st1] eqn:Ea. inversion Ev; subst C S' st' ex; clear Ev.
     cbn [need_stmt fst sscoped] in *. destruct Sc as [Sj Se]. rewrite (wfs_w w fb S Wf) in Hn.
     destruct (assign_bool_runs S s m j e st c st1 p Wf Rp Sj Se Hn Ea P) as [m' [Rn [Rp' Fa]]].
-    exists m', (p + size c). split; [reflexivity|]. split; [exact Rn|]. split; [exact Fa|]. split; assumption.
+    exists m', (p + size c). fin_normal Rn Fa. split; assumption.
   - (* write *)
-    intros x s S li st C S' st' ex p m Ev P Wf Rp Sc Hn. cbn [lower_stmt] in Ev. inversion Ev; subst C S' st' ex; clear Ev.
+    intros d x s S li st C S' st' ex p m Ev P Wf Tg Rp Hd Sc Hn. cbn [lower_stmt] in Ev. inversion Ev; subst C S' st' ex; clear Ev.
     assert (Hx : match x with WrByte o => oscoped w (length (ioffs S)) o /\ need_int S o false <= FP m - lo | _ => True end).
     { destruct x; cbn [sscoped need_stmt fst] in *; auto. }
     destruct (write_runs S s m x p Wf Rp Hx P) as [m' [Rn [Rp' Fa]]].
-    exists m', (p + size (lower_write S x)). split; [reflexivity|]. split; [exact Rn|]. split; [exact Fa|]. split; assumption.
+    exists m', (p + size (lower_write S x)). fin_normal Rn Fa. split; assumption.
   - (* writeln *)
-    intros s S li st C S' st' ex p m Ev P Wf Rp Sc Hn. cbn [lower_stmt] in Ev. inversion Ev; subst C S' st' ex; clear Ev.
+    intros d s S li st C S' st' ex p m Ev P Wf Tg Rp Hd Sc Hn. cbn [lower_stmt] in Ev. inversion Ev; subst C S' st' ex; clear Ev.
     cbn [plc res_ins res_sym] in P. destruct P as [Cy _].
     exists m, (p + size [AInstr (AYield (SChar 10))]). split; [reflexivity|]. split.
     + cbn [size map]. replace (p + (1 + 0)) with (p + 1) by lia.
       pose proof (yield_runs p m (Imm 10) (wrap 10) Cy (oval_imm w cmem m 10)) as Y. rewrite wrap_mod256 in Y. exact Y.
     + split; [apply fagree_refl|]. split; assumption.
   - (* write(int) *)
-    intros ln o s S li st C S' st' ex p m Ev P Wf Rp Sc Hn. cbn [lower_stmt] in Ev.
+    intros d ln o s S li st C S' st' ex p m Ev P Wf Tg Rp Hd Sc Hn. cbn [lower_stmt] in Ev.
     destruct (add_label LEndCall st) as [ec st1]. inversion Ev; subst C S' st' ex; clear Ev.
     cbn [sscoped] in Sc. destruct Sc as [So Hl].
     destruct (writei_runs S s m ln o ec p Hl Wf Rp So Hn P) as [m' [Rn [Rp' Fa]]].
-    eexists m', _. split; [reflexivity|]. split; [exact Rn|]. split; [exact Fa|]. split; assumption.
+    eexists m', _. fin_normal Rn Fa. split; assumption.
   - (* write(bool) *)
-    intros ln e s S li st C S' st' ex p m Ev P Wf Rp Sc Hn. cbn [lower_stmt] in Ev.
+    intros d ln e s S li st C S' st' ex p m Ev P Wf Tg Rp Hd Sc Hn. cbn [lower_stmt] in Ev.
     destruct (add_label LEndCall st) as [ec st1]. destruct (declare_bool (env_of (after_ra S)) e st1) as [c st2] eqn:Ed.
     inversion Ev; subst C S' st' ex; clear Ev.
     cbn [sscoped] in Sc. destruct Sc as [Se Hl].
     destruct (writeb_runs S s m ln e ec st1 c st2 p Hl Wf Rp Se Hn Ed P) as [m' [Rn [Rp' Fa]]].
-    eexists m', _. split; [reflexivity|]. split; [exact Rn|]. split; [exact Fa|]. split; assumption.
+    eexists m', _. fin_normal Rn Fa. split; assumption.
   - (* if *)
-    intros c s1 s2 s evs out s' Hx IH S li st C S' st' ex p m Ev P Wf Rp Sc Hn. cbn [lower_stmt] in Ev.
+    intros d c s1 s2 s evs out s' Hx IH S li st C S' st' ex p m Ev P Wf Tg Rp Hd Sc Hn. cbn [lower_stmt] in Ev.
     destruct (add_label LElse st) as [el st1]. destruct (add_label LEndElse st1) as [ee st2].
     destruct (lower_branch (env_of S) c [] (goto el) st2) as [cc st3] eqn:Ec.
     pose proof (lower_stmts_extends s1 S li st3 ltac:(rewrite (wfs_w w fb S Wf); lia)) as X1.
@@ -1960,12 +1836,13 @@ Proof.
     pose proof (rep_agree w R lo fb Hw S s m m1 Wf Rp A1) as Rp1.
     pose proof (rp_regs w R lo S s m Rp) as L. pose proof (FP_agree w R lo Hw _ m m1 L A1) as F1.
     pose proof (agree_fagree w R lo fb S s m m1 Wf Rp A1) as Fa1.
+    pose proof (ra_fagree S s m m1 Wf Rp Fa1) as Ra1.
     destruct (bevals w s c).
     + (* then *)
-      destruct (IH S li st3 c1 S1 st4 ex1 (p + size cc) m1 E1 Pc1 Wf Rp1 Sc1 ltac:(rewrite F1; exact Hn1))
+      destruct (IH S li st3 c1 S1 st4 ex1 (p + size cc) m1 E1 Pc1 Wf Tg Rp1 ltac:(rewrite F1; exact Hd) Sc1 ltac:(rewrite F1; exact Hn1))
         as [m2 [pc2 [Ex [Rn [Fa2 Po]]]]].
-      pose proof (fagree_trans w R lo fb Hw m m1 m2 L Fa1 Fa2) as Fa.
-      destruct out.
+      rewrite Ra1 in Ex. pose proof (frame_post_pre out m m1 m2 L Fa1 Fa2) as Fa.
+      destruct (outcome_normal_dec out) as [-> | Nn].
       * cbn [exit_pc] in Ex. inversion Ex; subst pc2. eexists m2, _.
         split; [reflexivity|]. split; [|split; [exact Fa|]].
         -- change (map EOut evs) with ([] ++ map EOut evs). rewrite <- (app_nil_r (map EOut evs)). rewrite app_assoc.
@@ -1974,32 +1851,26 @@ Proof.
            rewrite (wrap_small w (lab ee) (lab_range ee)), Lee in G. close_with G.
         -- destruct Po as [Rp2 _]. split; [|exact Wf].
            apply (rep_shrink S S1 s s' m2 X1 (rp_li w R lo S s m Rp) (rp_lb w R lo S s m Rp) Rp2).
-      * exists m2, pc2. split; [rewrite <- Ex; apply exit_pc_exit; discriminate|]. split; [|split; [exact Fa|]].
+      * exists m2, pc2. split; [rewrite <- Ex; apply exit_pc_exit; exact Nn|]. split; [|split; [exact Fa|]].
         -- change (map EOut evs) with ([] ++ map EOut evs). eapply runs_trans; [exact Rc | exact Rn].
-        -- cbn [post] in Po |- *. rewrite trunc_idem. exact Po.
-      * exists m2, pc2. split; [rewrite <- Ex; apply exit_pc_exit; discriminate|]. split; [|split; [exact Fa|]].
-        -- change (map EOut evs) with ([] ++ map EOut evs). eapply runs_trans; [exact Rc | exact Rn].
-        -- cbn [post] in Po |- *. rewrite trunc_idem. exact Po.
+        -- apply (post_exit S S1 S s s' out m m1 m2 Nn F1 Po).
     + (* else *)
       rewrite Lel in Rc.
-      destruct (IH S li st4 c2 S2 st5 ex2 _ m1 E2 Pc2 Wf Rp1 Sc2 ltac:(rewrite F1; exact Hn2))
+      destruct (IH S li st4 c2 S2 st5 ex2 _ m1 E2 Pc2 Wf Tg Rp1 ltac:(rewrite F1; exact Hd) Sc2 ltac:(rewrite F1; exact Hn2))
         as [m2 [pc2 [Ex [Rn [Fa2 Po]]]]].
-      pose proof (fagree_trans w R lo fb Hw m m1 m2 L Fa1 Fa2) as Fa.
-      destruct out.
+      rewrite Ra1 in Ex. pose proof (frame_post_pre out m m1 m2 L Fa1 Fa2) as Fa.
+      destruct (outcome_normal_dec out) as [-> | Nn].
       * cbn [exit_pc] in Ex. inversion Ex; subst pc2. eexists m2, _.
         split; [reflexivity|]. split; [|split; [exact Fa|]].
         -- change (map EOut evs) with ([] ++ map EOut evs).
            eapply runs_trans; [exact Rc|]. cbn [size goto] in Rn. close_with Rn.
         -- destruct Po as [Rp2 _]. split; [|exact Wf].
            apply (rep_shrink S S2 s s' m2 X2 (rp_li w R lo S s m Rp) (rp_lb w R lo S s m Rp) Rp2).
-      * exists m2, pc2. split; [rewrite <- Ex; apply exit_pc_exit; discriminate|]. split; [|split; [exact Fa|]].
+      * exists m2, pc2. split; [rewrite <- Ex; apply exit_pc_exit; exact Nn|]. split; [|split; [exact Fa|]].
         -- change (map EOut evs) with ([] ++ map EOut evs). eapply runs_trans; [exact Rc | exact Rn].
-        -- cbn [post] in Po |- *. rewrite trunc_idem. exact Po.
-      * exists m2, pc2. split; [rewrite <- Ex; apply exit_pc_exit; discriminate|]. split; [|split; [exact Fa|]].
-        -- change (map EOut evs) with ([] ++ map EOut evs). eapply runs_trans; [exact Rc | exact Rn].
-        -- cbn [post] in Po |- *. rewrite trunc_idem. exact Po.
+        -- apply (post_exit S S2 S s s' out m m1 m2 Nn F1 Po).
   - (* while: condition false *)
-    intros c b k s Hc S li st C S' st' ex p m Ev P Wf Rp Sc Hn. cbn [lower_stmt] in Ev.
+    intros d c b k s Hc S li st C S' st' ex p m Ev P Wf Tg Rp Hd Sc Hn. cbn [lower_stmt] in Ev.
     destruct (add_label LLoop st) as [ls st1]. destruct (add_label LContinue st1) as [lc st2]. destruct (add_label LBreak st2) as [lb st3].
     destruct (lower_branch (env_of S) c [] (goto lb) st3) as [cc st4] eqn:Ec.
     destruct (lower_stmts S (Some (lc, lb)) b st4) as [[[c1 S1] st5] ex1] eqn:E1.
@@ -2015,7 +1886,7 @@ Proof.
     + cbn [map]. rewrite Llb in Rc. close_with Rc.
     + split; [apply (rep_agree w R lo fb Hw S s m m1 Wf Rp A1) | exact Wf].
   - (* while: the body breaks *)
-    intros c b k s evs s1 Hc Hb IHb S li st C S' st' ex p m Ev P Wf Rp Sc Hn. cbn [lower_stmt] in Ev.
+    intros d c b k s evs s1 Hc Hb IHb S li st C S' st' ex p m Ev P Wf Tg Rp Hd Sc Hn. cbn [lower_stmt] in Ev.
     destruct (add_label LLoop st) as [ls st1]. destruct (add_label LContinue st1) as [lc st2]. destruct (add_label LBreak st2) as [lb st3].
     destruct (lower_branch (env_of S) c [] (goto lb) st3) as [cc st4] eqn:Ec.
     destruct (lower_stmts S (Some (lc, lb)) b st4) as [[[c1 S1] st5] ex1] eqn:E1.
@@ -2029,15 +1900,72 @@ Proof.
     destruct (cond_runs S s m c lb st3 cc st4 p Wf Rp Scc Hnc Ec Pcc) as [m1 [Rc A1]]. rewrite Hc in Rc.
     pose proof (rep_agree w R lo fb Hw S s m m1 Wf Rp A1) as Rp1.
     pose proof (rp_regs w R lo S s m Rp) as L. pose proof (FP_agree w R lo Hw _ m m1 L A1) as F1.
-    destruct (IHb S (Some (lc, lb)) st4 c1 S1 st5 ex1 (p + size cc) m1 E1 Pc1 Wf Rp1 Sc1 ltac:(rewrite F1; exact Hn1))
+    destruct (IHb S (Some (lc, lb)) st4 c1 S1 st5 ex1 (p + size cc) m1 E1 Pc1 Wf Tg Rp1 ltac:(rewrite F1; exact Hd) Sc1 ltac:(rewrite F1; exact Hn1))
       as [m2 [pc2 [Ex [Rn [Fa2 Po]]]]].
-    cbn [exit_pc] in Ex. inversion Ex; subst pc2. cbn [post] in Po.
+    cbn [exit_pc] in Ex. inversion Ex; subst pc2. cbn [post frame_post] in Po, Fa2.
     eexists m2, _. split; [reflexivity|]. split; [|split].
     + change (map EOut evs) with ([] ++ map EOut evs). eapply runs_trans; [exact Rc|]. rewrite Llb in Rn. close_with Rn.
     + apply (fagree_trans w R lo fb Hw m m1 m2 L); [apply (agree_fagree w R lo fb S s m m1 Wf Rp A1) | exact Fa2].
     + split; [exact Po | exact Wf].
+  - (* while: the body returns or faults *)
+    intros d c b k s evs out s1 Hc Hb IHb Lv S li st C S' st' ex p m Ev P Wf Tg Rp Hd Sc Hn. cbn [lower_stmt] in Ev.
+    destruct (add_label LLoop st) as [ls st1]. destruct (add_label LContinue st1) as [lc st2]. destruct (add_label LBreak st2) as [lb st3].
+    destruct (lower_branch (env_of S) c [] (goto lb) st3) as [cc st4] eqn:Ec.
+    destruct (lower_stmts S (Some (lc, lb)) b st4) as [[[c1 S1] st5] ex1] eqn:E1.
+    destruct (lower_stmts S li k st5) as [[[c2 S2] st6] ex2] eqn:E2.
+    inversion Ev; subst C S' st' ex; clear Ev.
+    cbn [app plc] in P. destruct P as [Lls P]. apply placed_app in P. destruct P as [Pcc P]. apply placed_app in P. destruct P as [Pc1 P].
+    cbn [sscoped need_stmt fst] in Sc, Hn. destruct Sc as [Scc [Sc1 Sc2]].
+    apply need_max in Hn. destruct Hn as [Hnc Hn]. apply need_max in Hn. destruct Hn as [Hn1 Hn2]. rewrite (wfs_w w fb S Wf) in Hnc.
+    destruct (cond_runs S s m c lb st3 cc st4 p Wf Rp Scc Hnc Ec Pcc) as [m1 [Rc A1]]. rewrite Hc in Rc.
+    pose proof (rep_agree w R lo fb Hw S s m m1 Wf Rp A1) as Rp1.
+    pose proof (rp_regs w R lo S s m Rp) as L. pose proof (FP_agree w R lo Hw _ m m1 L A1) as F1.
+    pose proof (agree_fagree w R lo fb S s m m1 Wf Rp A1) as Fa1. pose proof (ra_fagree S s m m1 Wf Rp Fa1) as Ra1.
+    destruct (IHb S (Some (lc, lb)) st4 c1 S1 st5 ex1 (p + size cc) m1 E1 Pc1 Wf Tg Rp1 ltac:(rewrite F1; exact Hd) Sc1 ltac:(rewrite F1; exact Hn1))
+      as [m2 [pc2 [Ex [Rn [Fa2 Po]]]]].
+    rewrite Ra1 in Ex. exists m2, pc2. split; [rewrite <- Ex; apply exit_pc_leaves; exact Lv|].
+    split; [change (map EOut evs) with ([] ++ map EOut evs); eapply runs_trans; [exact Rc | exact Rn]|].
+    split; [apply (frame_post_pre out m m1 m2 L Fa1 Fa2)|].
+    apply (post_exit S S1 S s s1 out m m1 m2 (leaves_not_normal out Lv) F1 Po).
+  - (* while: the continuation of a `for` does not complete *)
+    intros d c b k s e1 out1 s1 e2 out2 s2 Hc Hb IHb Nb Hk IHk Nn2 S li st C S' st' ex p m Ev P Wf Tg Rp Hd Sc Hn.
+    cbn [lower_stmt] in Ev.
+    destruct (add_label LLoop st) as [ls st1]. destruct (add_label LContinue st1) as [lc st2]. destruct (add_label LBreak st2) as [lb st3].
+    destruct (lower_branch (env_of S) c [] (goto lb) st3) as [cc st4] eqn:Ec.
+    pose proof (lower_stmts_extends b S (Some (lc, lb)) st4 ltac:(rewrite (wfs_w w fb S Wf); lia)) as X1.
+    destruct (lower_stmts S (Some (lc, lb)) b st4) as [[[c1 S1] st5] ex1] eqn:E1.
+    destruct (lower_stmts S li k st5) as [[[c2 S2] st6] ex2] eqn:E2.
+    inversion Ev; subst C S' st' ex; clear Ev.
+    cbn [app plc] in P. destruct P as [Lls P]. apply placed_app in P. destruct P as [Pcc P]. apply placed_app in P. destruct P as [Pc1 P].
+    cbn [app plc] in P. destruct P as [Llc P]. apply placed_app in P. destruct P as [Pc2 P].
+    cbn [sscoped need_stmt fst] in Sc, Hn. destruct Sc as [Scc [Sc1 Sc2]].
+    apply need_max in Hn. destruct Hn as [Hnc Hn]. apply need_max in Hn. destruct Hn as [Hn1 Hn2]. rewrite (wfs_w w fb S Wf) in Hnc.
+    destruct (cond_runs S s m c lb st3 cc st4 p Wf Rp Scc Hnc Ec Pcc) as [m1 [Rc A1]]. rewrite Hc in Rc.
+    pose proof (rep_agree w R lo fb Hw S s m m1 Wf Rp A1) as Rp1.
+    pose proof (rp_regs w R lo S s m Rp) as L. pose proof (FP_agree w R lo Hw _ m m1 L A1) as F1.
+    pose proof (agree_fagree w R lo fb S s m m1 Wf Rp A1) as Fa1.
+    destruct (IHb S (Some (lc, lb)) st4 c1 S1 st5 ex1 (p + size cc) m1 E1 Pc1 Wf Tg Rp1 ltac:(rewrite F1; exact Hd) Sc1 ltac:(rewrite F1; exact Hn1))
+      as [m2 [pc2 [Ex [Rn [Fa2 Po]]]]].
+    assert (B2 : pc2 = lab lc /\ rep S (trunc s s1) m2 /\ fagree m1 m2).
+    { destruct Nb as [-> | ->]; cbn [exit_pc post frame_post] in Ex, Po, Fa2.
+      - inversion Ex; subst pc2. split; [rewrite Llc; lia|]. destruct Po as [Rp2 _]. split; [|exact Fa2].
+        apply (rep_shrink S S1 s s1 m2 X1 (rp_li w R lo S s m Rp) (rp_lb w R lo S s m Rp) Rp2).
+      - inversion Ex; subst pc2. split; [reflexivity | split; [exact Po | exact Fa2]]. }
+    destruct B2 as [-> [Rp2 Fa2']].
+    pose proof (fagree_trans w R lo fb Hw m m1 m2 L Fa1 Fa2') as Fa12.
+    pose proof (FP_agree w R lo Hw _ m m2 L Fa12) as F2. pose proof (ra_fagree S s m m2 Wf Rp Fa12) as Ra2.
+    destruct (IHk S li st5 c2 S2 st6 ex2 _ m2 E2 Pc2 Wf Tg Rp2 ltac:(rewrite F2; exact Hd) Sc2 ltac:(rewrite F2; exact Hn2))
+      as [m3 [pc3 [Ex3 [Rn3 [Fa3 Po3]]]]].
+    rewrite Ra2 in Ex3. exists m3, pc3. split; [rewrite <- Ex3; apply exit_pc_exit; exact Nn2|].
+    split; [|split; [apply (frame_post_pre out2 m m2 m3 L Fa12 Fa3)|]].
+    + rewrite map_app. change (map EOut e1 ++ map EOut e2) with ([] ++ (map EOut e1 ++ map EOut e2)). rewrite Llc in Rn.
+      eapply runs_trans; [exact Rc|]. eapply runs_trans; [exact Rn | exact Rn3].
+    + apply (post_exit S S2 S s s2 out2 m m m3 Nn2 eq_refl).
+      apply (post_rebase S S2 s (trunc s s1) s2 out2 m m2 m3); [| | exact F2 | exact Po3].
+      * rewrite (rp_li w R lo S _ m2 Rp2), (rp_li w R lo S s m Rp). reflexivity.
+      * rewrite (rp_lb w R lo S _ m2 Rp2), (rp_lb w R lo S s m Rp). reflexivity.
   - (* while: one more iteration *)
-    intros c b k s e1 out1 s1 e2 s2 e3 s3 Hc Hb IHb Nb Hk IHk Hw' IHw S li st C S' st' ex p m Ev P Wf Rp Sc Hn.
+    intros d c b k s e1 out1 s1 e2 s2 e3 out3 s3 Hc Hb IHb Nb Hk IHk Hw' IHw S li st C S' st' ex p m Ev P Wf Tg Rp Hd Sc Hn.
     pose proof Ev as Ev0. pose proof P as P0. cbn [lower_stmt] in Ev.
     destruct (add_label LLoop st) as [ls st1]. destruct (add_label LContinue st1) as [lc st2]. destruct (add_label LBreak st2) as [lb st3].
     destruct (lower_branch (env_of S) c [] (goto lb) st3) as [cc st4] eqn:Ec.
@@ -2057,107 +1985,319 @@ Proof.
     pose proof (rp_regs w R lo S s m Rp) as L. pose proof (FP_agree w R lo Hw _ m m1 L A1) as F1.
     pose proof (agree_fagree w R lo fb S s m m1 Wf Rp A1) as Fa1.
     (* the body: ends at the continue label, normally or by `continue` *)
-    destruct (IHb S (Some (lc, lb)) st4 c1 S1 st5 ex1 (p + size cc) m1 E1 Pc1 Wf Rp1 Sc1 ltac:(rewrite F1; exact Hn1))
+    destruct (IHb S (Some (lc, lb)) st4 c1 S1 st5 ex1 (p + size cc) m1 E1 Pc1 Wf Tg Rp1 ltac:(rewrite F1; exact Hd) Sc1 ltac:(rewrite F1; exact Hn1))
       as [m2 [pc2 [Ex [Rn [Fa2 Po]]]]].
-    assert (B2 : pc2 = lab lc /\ rep S (trunc s s1) m2).
-    { destruct out1; cbn [exit_pc post] in Ex, Po.
-      - inversion Ex; subst pc2. split; [rewrite Llc; lia|]. destruct Po as [Rp2 _].
+    assert (B2 : pc2 = lab lc /\ rep S (trunc s s1) m2 /\ fagree m1 m2).
+    { destruct Nb as [-> | ->]; cbn [exit_pc post frame_post] in Ex, Po, Fa2.
+      - inversion Ex; subst pc2. split; [rewrite Llc; lia|]. destruct Po as [Rp2 _]. split; [|exact Fa2].
         apply (rep_shrink S S1 s s1 m2 X1 (rp_li w R lo S s m Rp) (rp_lb w R lo S s m Rp) Rp2).
-      - exfalso. apply Nb. reflexivity.
-      - inversion Ex; subst pc2. split; [reflexivity | exact Po]. }
-    destruct B2 as [-> Rp2].
-    pose proof (fagree_trans w R lo fb Hw m m1 m2 L Fa1 Fa2) as Fa12.
+      - inversion Ex; subst pc2. split; [reflexivity | split; [exact Po | exact Fa2]]. }
+    destruct B2 as [-> [Rp2 Fa2']].
+    pose proof (fagree_trans w R lo fb Hw m m1 m2 L Fa1 Fa2') as Fa12.
     pose proof (FP_agree w R lo Hw _ m m2 L Fa12) as F2.
     (* the continuation *)
-    destruct (IHk S li st5 c2 S2 st6 ex2 _ m2 E2 Pc2 Wf Rp2 Sc2 ltac:(rewrite F2; exact Hn2))
+    destruct (IHk S li st5 c2 S2 st6 ex2 _ m2 E2 Pc2 Wf Tg Rp2 ltac:(rewrite F2; exact Hd) Sc2 ltac:(rewrite F2; exact Hn2))
       as [m3 [pc3 [Ex3 [Rn3 [Fa3 Po3]]]]].
-    cbn [exit_pc post] in Ex3, Po3. inversion Ex3; subst pc3. destruct Po3 as [Rp3 _].
+    cbn [exit_pc post frame_post] in Ex3, Po3, Fa3. inversion Ex3; subst pc3. destruct Po3 as [Rp3 _].
     pose proof (rep_shrink S S2 (trunc s s1) s2 m3 X2 (rp_li w R lo S _ m2 Rp2) (rp_lb w R lo S _ m2 Rp2) Rp3) as Rp3'.
     assert (Et : trunc (trunc s s1) s2 = trunc s s2).
     { apply trunc_same_len; [rewrite (rp_li w R lo S _ m2 Rp2), (rp_li w R lo S s m Rp) | rewrite (rp_lb w R lo S _ m2 Rp2), (rp_lb w R lo S s m Rp)]; reflexivity. }
     rewrite Et in Rp3'.
     pose proof (fagree_trans w R lo fb Hw m m2 m3 L Fa12 Fa3) as Fa13.
-    pose proof (FP_agree w R lo Hw _ m m3 L Fa13) as F3.
+    pose proof (FP_agree w R lo Hw _ m m3 L Fa13) as F3. pose proof (ra_fagree S s m m3 Wf Rp Fa13) as Ra3.
     (* back to the loop head, and the rest of the loop by the induction hypothesis *)
     pose proof (goto_label w code cmem _ m3 (lab ls) Gj Gh) as G.
     rewrite (wrap_small w (lab ls) (lab_range ls)), Lls in G.
-    destruct (IHw S li st _ S st6 false p m3 Ev0 P0 Wf Rp3' Sc0 ltac:(rewrite F3; exact Hn0))
+    destruct (IHw S li st _ S st6 false p m3 Ev0 P0 Wf Tg Rp3' ltac:(rewrite F3; exact Hd) Sc0 ltac:(rewrite F3; exact Hn0))
       as [m4 [pc4 [Ex4 [Rn4 [Fa4 Po4]]]]].
-    exists m4, pc4. split; [exact Ex4|]. split; [|split; [apply (fagree_trans w R lo fb Hw m m3 m4 L Fa13 Fa4) | exact Po4]].
-    rewrite !map_app.
-    change (map EOut e1 ++ map EOut e2 ++ map EOut e3) with ([] ++ (map EOut e1 ++ (map EOut e2 ++ ([] ++ map EOut e3)))).
-    rewrite Llc in Rn.
-    eapply runs_trans; [exact Rc|]. eapply runs_trans; [exact Rn|].
-    eapply runs_trans; [exact Rn3|]. eapply runs_trans; [exact G | exact Rn4].
+    rewrite Ra3 in Ex4.
+    exists m4, pc4. split; [exact Ex4|]. split; [|split; [apply (frame_post_pre out3 m m3 m4 L Fa13 Fa4)|]].
+    + rewrite !map_app.
+      change (map EOut e1 ++ map EOut e2 ++ map EOut e3) with ([] ++ (map EOut e1 ++ (map EOut e2 ++ ([] ++ map EOut e3)))).
+      rewrite Llc in Rn.
+      eapply runs_trans; [exact Rc|]. eapply runs_trans; [exact Rn|].
+      eapply runs_trans; [exact Rn3|]. eapply runs_trans; [exact G | exact Rn4].
+    + apply (post_rebase S S s (trunc s s2) s3 out3 m m3 m4); [| | exact F3 | exact Po4].
+      * rewrite (rp_li w R lo S _ m3 Rp3'), (rp_li w R lo S s m Rp). reflexivity.
+      * rewrite (rp_lb w R lo S _ m3 Rp3'), (rp_lb w R lo S s m Rp). reflexivity.
   - (* block *)
-    intros ss s evs out s' Hx IH S li st C S' st' ex p m Ev P Wf Rp Sc Hn. cbn [lower_stmt] in Ev.
+    intros d ss s evs out s' Hx IH S li st C S' st' ex p m Ev P Wf Tg Rp Hd Sc Hn. cbn [lower_stmt] in Ev.
     pose proof (lower_stmts_extends ss S li st ltac:(rewrite (wfs_w w fb S Wf); lia)) as X1.
     destruct (lower_stmts S li ss st) as [[[c S1] st1] ex1] eqn:E1. inversion Ev; subst C S' st' ex; clear Ev.
     cbn [sscoped need_stmt fst] in Sc, Hn.
-    destruct (IH S li st c S1 st1 ex1 p m E1 P Wf Rp Sc Hn) as [m2 [pc2 [Ex [Rn [Fa Po]]]]].
+    destruct (IH S li st c S1 st1 ex1 p m E1 P Wf Tg Rp Hd Sc Hn) as [m2 [pc2 [Ex [Rn [Fa Po]]]]].
     exists m2, pc2. split; [exact Ex|]. split; [exact Rn|]. split; [exact Fa|].
-    destruct out; cbn [post] in Po |- *; try (rewrite trunc_idem; exact Po).
+    destruct (outcome_normal_dec out) as [-> | Nn]; [|apply (post_exit S S1 S s s' out m m m2 Nn eq_refl Po)].
     destruct Po as [Rp2 _]. split; [|exact Wf].
     apply (rep_shrink S S1 s s' m2 X1 (rp_li w R lo S s m Rp) (rp_lb w R lo S s m Rp) Rp2).
   - (* break *)
-    intros s S li st C S' st' ex p m Ev P Wf Rp Sc Hn. cbn [lower_stmt sscoped] in Ev, Sc.
+    intros d s S li st C S' st' ex p m Ev P Wf Tg Rp Hd Sc Hn. cbn [lower_stmt sscoped] in Ev, Sc.
     destruct li as [[lc lb]|]; [|discriminate Sc]. inversion Ev; subst C S' st' ex; clear Ev.
     cbn [goto plc res_ins res_sym] in P. destruct P as [Gj [Gh _]].
     pose proof (goto_label w code cmem _ m (lab lb) Gj Gh) as G. rewrite (wrap_small w (lab lb) (lab_range lb)) in G.
     exists m, (lab lb). split; [reflexivity|]. split; [exact G|]. split; [apply fagree_refl|].
     cbn [post]. rewrite trunc_self. exact Rp.
   - (* continue *)
-    intros s S li st C S' st' ex p m Ev P Wf Rp Sc Hn. cbn [lower_stmt sscoped] in Ev, Sc.
+    intros d s S li st C S' st' ex p m Ev P Wf Tg Rp Hd Sc Hn. cbn [lower_stmt sscoped] in Ev, Sc.
     destruct li as [[lc lb]|]; [|discriminate Sc]. inversion Ev; subst C S' st' ex; clear Ev.
     cbn [goto plc res_ins res_sym] in P. destruct P as [Gj [Gh _]].
     pose proof (goto_label w code cmem _ m (lab lc) Gj Gh) as G. rewrite (wrap_small w (lab lc) (lab_range lc)) in G.
     exists m, (lab lc). split; [reflexivity|]. split; [exact G|]. split; [apply fagree_refl|].
     cbn [post]. rewrite trunc_self. exact Rp.
+  - (* int x = a / b *)
+    intros d op a b s Nz S li st C S' st' ex p m Ev P Wf Tg Rp Hd Sc Hn. cbn [lower_stmt] in Ev.
+    destruct (add_label LDivAllowed st) as [da st1]. inversion Ev; subst C S' st' ex; clear Ev.
+    cbn [sscoped need_stmt fst] in Sc, Hn. destruct Sc as [Hop [Sa [Sb Hl]]].
+    apply need_max in Hn. destruct Hn as [Hn1 Hn2]. rewrite (wfs_w w fb S Wf) in Hn2.
+    destruct (decldiv_runs S s m op a b da p Hl Wf Rp Hop Sa Sb Hn1 Hn2 P) as [Ok _]. destruct (Ok Nz) as [m' [Rn [Rp' A]]].
+    eexists m', _. fin_normal Rn (agree_fagree w R lo fb S s m m' Wf Rp A). split; [exact Rp' | apply wf_push_int; exact Wf].
+  - (* int x = a / 0 *)
+    intros d op a b s Z0 S li st C S' st' ex p m Ev P Wf Tg Rp Hd Sc Hn. cbn [lower_stmt] in Ev.
+    destruct (add_label LDivAllowed st) as [da st1]. inversion Ev; subst C S' st' ex; clear Ev.
+    cbn [sscoped need_stmt fst] in Sc, Hn. destruct Sc as [Hop [Sa [Sb Hl]]].
+    apply need_max in Hn. destruct Hn as [Hn1 Hn2]. rewrite (wfs_w w fb S Wf) in Hn2.
+    destruct (decldiv_runs S s m op a b da p Hl Wf Rp Hop Sa Sb Hn1 Hn2 P) as [_ Fl]. destruct (Fl Z0) as [m' Rn].
+    exists m', div_stub. split; [reflexivity|]. split; [exact Rn|]. split; exact I.
+  - (* xi = a / b *)
+    intros d i op a b s Hi Nz S li st C S' st' ex p m Ev P Wf Tg Rp Hd Sc Hn. cbn [lower_stmt] in Ev.
+    destruct (add_label LDivAllowed st) as [da st1]. inversion Ev; subst C S' st' ex; clear Ev.
+    cbn [sscoped need_stmt fst] in Sc, Hn. destruct Sc as [Si [Hop [Sa [Sb Hl]]]].
+    destruct (assdiv_runs S s m i op a b da p Hl Wf Rp Si Hop Sa Sb Hn P) as [Ok _]. destruct (Ok Nz) as [m' [Rn [Rp' Fa]]].
+    eexists m', _. fin_normal Rn Fa. split; assumption.
+  - (* xi = a / 0 *)
+    intros d i op a b s Z0 S li st C S' st' ex p m Ev P Wf Tg Rp Hd Sc Hn. cbn [lower_stmt] in Ev.
+    destruct (add_label LDivAllowed st) as [da st1]. inversion Ev; subst C S' st' ex; clear Ev.
+    cbn [sscoped need_stmt fst] in Sc, Hn. destruct Sc as [Si [Hop [Sa [Sb Hl]]]].
+    destruct (assdiv_runs S s m i op a b da p Hl Wf Rp Si Hop Sa Sb Hn P) as [_ Fl]. destruct (Fl Z0) as [m' Rn].
+    exists m', div_stub. split; [reflexivity|]. split; [exact Rn|]. split; exact I.
+  - (* a call that returns *)
+    intros d dst f args s evs v s' Hc IHc Hds S li st C S' st' ex p m Ev P Wf Tg Rp Hd Sc Hn. cbn [lower_stmt] in Ev.
+    destruct (add_label LEndCall st) as [ec st1]. inversion Ev; subst C S' st' ex; clear Ev.
+    cbn [sscoped need_stmt fst] in Sc, Hn. destruct Sc as [Sd [Cf [Sa Hl]]].
+    pose proof (wfs_w w fb S Wf) as Ews. apply need_max in Hn. destruct Hn as [Hn1 Hn2]. rewrite Ews in Hn1.
+    pose proof (rp_regs w R lo S s m Rp) as L.
+    unfold lower_call in P. apply placed_app in P. destruct P as [Pra P]. apply placed_app in P. destruct P as [Pargs P].
+    apply placed_app in P. destruct P as [Pcall Pdst].
+    destruct (push_ra_runs S s m ec p Wf Rp Hn1 Pra) as [Rra [Ara [Rpa Vra]]].
+    set (ma := sw m (FP m - (top S + w)) (lab ec)) in *.
+    pose proof (FP_agree w R lo Hw _ m ma L Ara) as Fma.
+    destruct (push_args_runs args (after_ra S) s ma _ (wf_after_ra S Wf) Rpa Sa ltac:(rewrite Fma; exact Hn2) Pargs) as [mb [Rargs [Ab Vargs]]].
+    cbn [after_ra top] in Ab, Vargs. rewrite Ews, Fma in Ab, Vargs.
+    assert (A0b : agree w R lo (FP m - top S) m mb).
+    { eapply (agree_trans w R lo); [exact Ara|]. apply (agree_mono w R lo (FP m - (top S + w))); [lia | exact Ab]. }
+    assert (Vrb : lw mb (FP m - top S - w) = lab ec).
+    { rewrite <- Vra. apply (agree_lw w R lo Hw (FP m - (top S + w)) ma mb _ Ab); [destruct L, Rp; lia|]. unfold dj. destruct L, Rp. lia. }
+    destruct (entry_mem S s m mb Wf Rp A0b) as [L1 [F1 [Sz1 G1]]]. set (m1 := sw mb fp (FP m + wrap (- top S))) in *.
+    pose proof (tight_frame_top S s m Tg Rp) as Eft. pose proof (wfs_fb w fb S Wf) as Ofb.
+    pose proof (need_args_ge args (after_ra S) ltac:(cbn [after_ra ws]; lia)) as Ga. cbn [after_ra top ws] in Ga. rewrite Ews in Ga.
+    pose proof Hl as [Hfp [H0 [H1 [H2 [CA [BR Hap]]]]]].
+    assert (Lwb : forall a, fp + w <= a -> lw m1 a = lw mb a).
+    { intros a Ha. apply (lw_agree w Hw). intros x Hx. apply G1; destruct L; lia. }
+    destruct (IHc m1 Hl ltac:(rewrite map_length; exact Cf) L1 ltac:(rewrite F1, Eft, Hd; lia)
+                ltac:(rewrite F1; destruct Rp; lia) ltac:(rewrite F1, Sz1, (proj1 A0b); destruct Rp; lia)) as [m2 Res].
+    { intros Ap. replace (lw m1 (a_ap R)) with (lw mb (a_ap R)).
+      - rewrite (ap_agree w R lo Hw _ m mb Ap A0b). apply (rp_ap w R lo S s m Rp Ap).
+      - symmetry. apply (lw_agree w Hw). intros x Hx. apply G1; rewrite Hap, Hfp in *; lia. }
+    { intros k Hk. rewrite map_length in Hk. rewrite F1. specialize (Vargs k Hk).
+      change 0 with (ieval w s (OLit 0)). rewrite map_nth. rewrite <- Vargs. f_equal. rewrite Lwb by (rewrite Hfp; destruct L, Rp; nia).
+      f_equal. lia. }
+    destruct Res as [Rc [A2 Vr]]. rewrite F1 in Rc, A2, Vr.
+    destruct (user_call_runs S s m mb ec f _ evs (fun x => match v with Some xv => sgn x = xv | None => True end)
+                Wf Rp A0b Hn1 Vrb Pcall) as [m3 [Rcall [A3 Q3]]].
+    { exists m2. split; [exact Rc|]. split; [exact A2 | exact Vr]. }
+    assert (Rpre : runs (mk p m) (map EOut evs) (mk (p + size [push_ra S ec] + size (push_args (after_ra S) args) + size (call_seq S ec f)) m3)).
+    { change (map EOut evs) with ([] ++ ([] ++ map EOut evs)). eapply runs_trans; [exact Rra|]. eapply runs_trans; [|exact Rcall].
+      cbn [size]. replace (p + (1 + 0)) with (p + 1) by lia. exact Rargs. }
+    pose proof (rep_agree w R lo fb Hw S s m m3 Wf Rp A3) as Rp3.
+    destruct dst as [| |i]; cbn [dest_store] in Hds.
+    + (* f(args); *) subst s'. eexists m3, _. split; [reflexivity|]. split; [|split; [apply (agree_fagree w R lo fb S s m m3 Wf Rp A3)|split; assumption]].
+      unfold lower_call. rewrite ?size_app. cbn [size push_ra]. cbn [size push_ra] in Rpre.
+      match goal with |- HidV.Sphinx.Halts.runs _ _ _ (mk ?x _) =>
+        match type of Rpre with HidV.Sphinx.Halts.runs _ _ _ (mk ?y _) => replace x with y by lia end end. exact Rpre.
+    + (* int x = f(args); *) destruct Hds as [x [-> ->]].
+      eexists m3, _. split; [reflexivity|]. split; [|split; [apply (agree_fagree w R lo fb S s m m3 Wf Rp A3)|split; [|apply wf_push_int; exact Wf]]].
+      * unfold lower_call. rewrite ?size_app. cbn [size push_ra]. cbn [size push_ra] in Rpre.
+        match goal with |- HidV.Sphinx.Halts.runs _ _ _ (mk ?x _) =>
+          match type of Rpre with HidV.Sphinx.Halts.runs _ _ _ (mk ?y _) => replace x with y by lia end end. exact Rpre.
+      * apply (rep_push_int S s m m3 x Wf Rp A3 Hn1). replace (FP m - (top S + w)) with (FP m - top S - w) by lia. exact Q3.
+    + (* xi = f(args); *) destruct Hds as [x [-> [Hi ->]]].
+      pose proof (FP_agree w R lo Hw _ m m3 L A3) as F3.
+      destruct (fetch_result_runs S s m3 i x _ Wf Rp3 Sd ltac:(rewrite F3; exact Hn1)
+                  ltac:(rewrite F3; replace (FP m - (top S + w)) with (FP m - top S - w) by lia; exact Q3) Pdst) as [m5 [R5 [Rp5 Fa5]]].
+      eexists m5, _. split; [reflexivity|]. split; [|split; [|split; assumption]].
+      * rewrite <- (app_nil_r (map EOut evs)). eapply runs_trans; [exact Rpre|].
+        unfold lower_call. rewrite ?size_app. cbn [size push_ra]. cbn [size push_ra] in R5. close_with R5.
+      * apply (fagree_trans w R lo fb Hw m m3 m5 L); [apply (agree_fagree w R lo fb S s m m3 Wf Rp A3) | exact Fa5].
+  - (* a call that faults *)
+    intros d dst f args s evs ft Hc IHc S li st C S' st' ex p m Ev P Wf Tg Rp Hd Sc Hn. cbn [lower_stmt] in Ev.
+    destruct (add_label LEndCall st) as [ec st1]. inversion Ev; subst C S' st' ex; clear Ev.
+    cbn [sscoped need_stmt fst] in Sc, Hn. destruct Sc as [Sd [Cf [Sa Hl]]].
+    pose proof (wfs_w w fb S Wf) as Ews. apply need_max in Hn. destruct Hn as [Hn1 Hn2]. rewrite Ews in Hn1.
+    pose proof (rp_regs w R lo S s m Rp) as L.
+    unfold lower_call in P. apply placed_app in P. destruct P as [Pra P]. apply placed_app in P. destruct P as [Pargs P].
+    apply placed_app in P. destruct P as [Pcall Pdst].
+    destruct (push_ra_runs S s m ec p Wf Rp Hn1 Pra) as [Rra [Ara [Rpa Vra]]].
+    set (ma := sw m (FP m - (top S + w)) (lab ec)) in *.
+    pose proof (FP_agree w R lo Hw _ m ma L Ara) as Fma.
+    destruct (push_args_runs args (after_ra S) s ma _ (wf_after_ra S Wf) Rpa Sa ltac:(rewrite Fma; exact Hn2) Pargs) as [mb [Rargs [Ab Vargs]]].
+    cbn [after_ra top] in Ab, Vargs. rewrite Ews, Fma in Ab, Vargs.
+    assert (A0b : agree w R lo (FP m - top S) m mb).
+    { eapply (agree_trans w R lo); [exact Ara|]. apply (agree_mono w R lo (FP m - (top S + w))); [lia | exact Ab]. }
+    destruct (entry_mem S s m mb Wf Rp A0b) as [L1 [F1 [Sz1 G1]]]. set (m1 := sw mb fp (FP m + wrap (- top S))) in *.
+    pose proof (tight_frame_top S s m Tg Rp) as Eft. pose proof (wfs_fb w fb S Wf) as Ofb.
+    pose proof (need_args_ge args (after_ra S) ltac:(cbn [after_ra ws]; lia)) as Ga. cbn [after_ra top ws] in Ga. rewrite Ews in Ga.
+    pose proof Hl as [Hfp [H0 [H1 [H2 [CA [BR Hap]]]]]].
+    assert (Lwb : forall a, fp + w <= a -> lw m1 a = lw mb a).
+    { intros a Ha. apply (lw_agree w Hw). intros x Hx. apply G1; destruct L; lia. }
+    destruct (IHc m1 Hl ltac:(rewrite map_length; exact Cf) L1 ltac:(rewrite F1, Eft, Hd; lia)
+                ltac:(rewrite F1; destruct Rp; lia) ltac:(rewrite F1, Sz1, (proj1 A0b); destruct Rp; lia)) as [m2 Res].
+    { intros Ap. replace (lw m1 (a_ap R)) with (lw mb (a_ap R)).
+      - rewrite (ap_agree w R lo Hw _ m mb Ap A0b). apply (rp_ap w R lo S s m Rp Ap).
+      - symmetry. apply (lw_agree w Hw). intros x Hx. apply G1; rewrite Hap, Hfp in *; lia. }
+    { intros k Hk. rewrite map_length in Hk. rewrite F1. specialize (Vargs k Hk).
+      change 0 with (ieval w s (OLit 0)). rewrite map_nth. rewrite <- Vargs. f_equal. rewrite Lwb by (rewrite Hfp; destruct L, Rp; nia).
+      f_equal. lia. }
+    exists m2, (a_lib R + fault_off ft). split; [reflexivity|]. split; [|split; exact I].
+    change (map EOut evs) with ([] ++ ([] ++ ([] ++ map EOut evs))). eapply runs_trans; [exact Rra|].
+    eapply runs_trans; [cbn [size]; replace (p + (1 + 0)) with (p + 1) by lia; exact Rargs|].
+    eapply runs_trans; [apply (call_enter S s m mb ec f _ Wf Rp A0b Pcall) | exact Res].
+  - (* return; *)
+    intros d s S li st C S' st' ex p m Ev P Wf Tg Rp Hd Sc Hn. cbn [lower_stmt] in Ev. inversion Ev; subst C S' st' ex; clear Ev.
+    destruct (return_runs S s m None p Wf Rp I P) as [m' [Rn [A _]]].
+    exists m', (lw m (FP m - w)). split; [reflexivity|]. split; [exact Rn|]. split; [exact A | exact I].
+  - (* return o; *)
+    intros d o s S li st C S' st' ex p m Ev P Wf Tg Rp Hd Sc Hn. cbn [lower_stmt] in Ev. inversion Ev; subst C S' st' ex; clear Ev.
+    cbn [sscoped need_stmt fst] in Sc, Hn.
+    destruct (return_runs S s m (Some o) p Wf Rp (conj Sc Hn) P) as [m' [Rn [A V]]].
+    exists m', (lw m (FP m - w)). split; [reflexivity|]. split; [exact Rn|]. split; [exact A | exact V].
   - (* the empty list *)
-    intros s S li st C S' st' ex p m Ev P Wf Rp Sc Hn. cbn [lower_stmts] in Ev. inversion Ev; subst C S' st' ex; clear Ev.
+    intros d s S li st C S' st' ex p m Ev P Wf Tg Rp Hd Sc Hn. cbn [lower_stmts] in Ev. inversion Ev; subst C S' st' ex; clear Ev.
     exists m, (p + size []). split; [reflexivity|]. cbn [size map]. replace (p + 0) with p by lia.
     split; [apply runs_refl|]. split; [apply fagree_refl|]. split; assumption.
-  - (* s; rest — s completes *)
-    intros s r s0 e1 s1 e2 out s2 H1 IH1 H2 IH2 S li st C S' st' ex p m Ev P Wf Rp Sc Hn. cbn [lower_stmts] in Ev.
+  - (* s; rest -- s completes *)
+    intros d s r s0 e1 s1 e2 out s2 H1 IH1 H2 IH2 S li st C S' st' ex p m Ev P Wf Tg Rp Hd Sc Hn. cbn [lower_stmts] in Ev.
     pose proof (lower_stmt_env S li s st) as Ee. pose proof (lower_stmt_exited S li s st) as Eex.
     destruct (lower_stmt S li s st) as [[[c S1] st1] ex1] eqn:E1.
     assert (Nex : ex1 = false).
-    { destruct ex1; [|reflexivity]. destruct (Eex eq_refl) as [-> | ->]; inversion H1. }
+    { destruct ex1; [|reflexivity]. specialize (Eex eq_refl). destruct s; try discriminate Eex; inversion H1. }
     subst ex1. destruct (lower_stmts S1 li r st1) as [[[cr S2] st2] ex2] eqn:E2. inversion Ev; subst C S' st' ex; clear Ev.
     apply placed_app in P. destruct P as [Pc Pr].
     cbn [ssscoped need_stmts] in Sc, Hn. destruct Sc as [Scs Scr].
-    destruct (need_stmt S s) as [n S1'] eqn:En. cbn [snd] in Ee. subst S1'. apply need_max in Hn. destruct Hn as [Hns Hnr].
-    destruct (IH1 S li st c S1 st1 false p m E1 Pc Wf Rp Scs ltac:(rewrite En; exact Hns)) as [m1 [pc1 [Ex1 [Rn1 [Fa1 Po1]]]]].
-    cbn [exit_pc post] in Ex1, Po1. inversion Ex1; subst pc1. destruct Po1 as [Rp1 Wf1].
+    pose proof (tight_step S s Wf Tg) as Tg1.
+    destruct (need_stmt S s) as [n S1'] eqn:En. cbn [snd] in Ee, Tg1. subst S1'. apply need_max in Hn. destruct Hn as [Hns Hnr].
+    destruct (IH1 S li st c S1 st1 false p m E1 Pc Wf Tg Rp Hd Scs ltac:(rewrite En; exact Hns)) as [m1 [pc1 [Ex1 [Rn1 [Fa1 Po1]]]]].
+    cbn [exit_pc post frame_post] in Ex1, Po1, Fa1. inversion Ex1; subst pc1. destruct Po1 as [Rp1 Wf1].
     pose proof (rp_regs w R lo S s0 m Rp) as L. pose proof (FP_agree w R lo Hw _ m m1 L Fa1) as F1.
+    pose proof (ra_fagree S s0 m m1 Wf Rp Fa1) as Ra1.
     assert (X1 : extends S S1).
     { pose proof (need_stmt_extends S s ltac:(rewrite (wfs_w w fb S Wf); lia)) as X. rewrite En in X. exact X. }
-    assert (Scr' : ssscoped w lib_hyps (length (ioffs S1)) (length (boffs S1)) (in_loop li) r).
+    assert (Scr' : ssscoped w lib_hyps cf (length (ioffs S1)) (length (boffs S1)) (in_loop li) r).
     { assert (Es : S1 = snd (need_stmt S s)) by (rewrite En; reflexivity).
-      destruct s as [o|i o|e|j e|x| |ln o|ln e|c0 t1 t2|c0 b k|ss| |]; try destruct x; cbn [need_stmt need_bool_decl snd] in Es; subst S1;
+      destruct s as [o|i o|e|j e|x| |ln o|ln e|c0 t1 t2|c0 b k|ss| | |op a b|i op a b|dst f args|rv]; try destruct x; try destruct dst; try destruct rv;
+        cbn [need_stmt need_bool_decl snd] in Es; subst S1;
         cbn [push_int push_bool ioffs boffs]; rewrite ?app_length; cbn [length]; rewrite ?Nat.add_1_r; exact Scr. }
-    destruct (IH2 S1 li st1 cr S2 st2 ex2 (p + size c) m1 E2 Pr Wf1 Rp1 Scr' ltac:(rewrite F1; exact Hnr))
+    destruct (IH2 S1 li st1 cr S2 st2 ex2 (p + size c) m1 E2 Pr Wf1 Tg1 Rp1 ltac:(rewrite F1; exact Hd) Scr' ltac:(rewrite F1; exact Hnr))
       as [m2 [pc2 [Ex2 [Rn2 [Fa2 Po2]]]]].
-    exists m2, pc2. split; [|split; [|split; [apply (fagree_trans w R lo fb Hw m m1 m2 L Fa1 Fa2)|]]].
+    rewrite Ra1 in Ex2.
+    exists m2, pc2. split; [|split; [|split; [apply (frame_post_pre out m m1 m2 L Fa1 Fa2)|]]].
     + rewrite <- Ex2. rewrite size_app. replace (p + (size c + size cr)) with (p + size c + size cr) by lia. reflexivity.
     + rewrite map_app. eapply runs_trans; [exact Rn1 | exact Rn2].
-    + destruct out; cbn [post] in Po2 |- *; try exact Po2.
+    + destruct out; cbn [post] in Po2 |- *; try exact Po2; try exact I.
       * pose proof (rep_shrink S S1 s0 _ m2 X1 (rp_li w R lo S s0 m Rp) (rp_lb w R lo S s0 m Rp) Po2) as Rs.
         destruct (rep_len_le S S1 s0 s1 m m1 X1 Rp Rp1) as [La Lb]. rewrite (trunc_trunc s0 s1 s2 La Lb) in Rs. exact Rs.
       * pose proof (rep_shrink S S1 s0 _ m2 X1 (rp_li w R lo S s0 m Rp) (rp_lb w R lo S s0 m Rp) Po2) as Rs.
         destruct (rep_len_le S S1 s0 s1 m m1 X1 Rp Rp1) as [La Lb]. rewrite (trunc_trunc s0 s1 s2 La Lb) in Rs. exact Rs.
-  - (* s; rest — s breaks or continues: the rest is skipped *)
-    intros s r s0 e1 out s1 H1 IH1 Nn S li st C S' st' ex p m Ev P Wf Rp Sc Hn. cbn [lower_stmts] in Ev.
+      * rewrite <- F1. exact Po2.
+  - (* s; rest -- s does not complete: the rest is skipped *)
+    intros d s r s0 e1 out s1 H1 IH1 Nn S li st C S' st' ex p m Ev P Wf Tg Rp Hd Sc Hn. cbn [lower_stmts] in Ev.
     pose proof (lower_stmt_env S li s st) as Ee.
     destruct (lower_stmt S li s st) as [[[c S1] st1] ex1] eqn:E1.
     cbn [ssscoped need_stmts] in Sc, Hn. destruct Sc as [Scs _].
     destruct (need_stmt S s) as [n S1'] eqn:En. apply need_max in Hn. destruct Hn as [Hns _].
-    assert (Pc : plc c p /\ (forall e, exit_pc li out e = exit_pc li out (p + size c))) by (split; [|intros; apply exit_pc_exit; exact Nn];
+    assert (Pc : plc c p /\ (forall e ra, exit_pc li out e ra = exit_pc li out (p + size c) ra)) by (split; [|intros; apply exit_pc_exit; exact Nn];
       destruct ex1; [inversion Ev; subst; exact P | destruct (lower_stmts S1 li r st1) as [[[cr S2] st2] ex2]; inversion Ev; subst; apply placed_app in P; tauto]).
     destruct Pc as [Pc Xe].
-    destruct (IH1 S li st c S1 st1 ex1 p m E1 Pc Wf Rp Scs ltac:(rewrite En; exact Hns)) as [m1 [pc1 [Ex1 [Rn1 [Fa1 Po1]]]]].
+    destruct (IH1 S li st c S1 st1 ex1 p m E1 Pc Wf Tg Rp Hd Scs ltac:(rewrite En; exact Hns)) as [m1 [pc1 [Ex1 [Rn1 [Fa1 Po1]]]]].
     exists m1, pc1. split; [rewrite Xe; exact Ex1|]. split; [exact Rn1|]. split; [exact Fa1|].
-    destruct out; [exfalso; apply Nn; reflexivity | exact Po1 | exact Po1].
+    destruct out; try exact Po1. exfalso; apply Nn; reflexivity.
+  - (* a call whose entry guard fails *)
+    intros d f vs fd Hfd Hlt m Hl Cf L Hd Hh Hs Hap Hv.
+    destruct (cf_ok f _ Cf) as [fd' [st [Hfd' [Hnp [Hnd [Pf Scf]]]]]]. rewrite Hfd in Hfd'. inversion Hfd'; subst fd'; clear Hfd'.
+    unfold lower_fun in Pf. destruct (add_label LNoOverflow st) as [no st1].
+    destruct (lower_stmts (is_you_senv w (fn_params fd)) None (fn_body fd) st1) as [[[c S1] st2] ex1] eqn:El.
+    cbn [fst app placed res_ins res_sym regaddr] in Pf. destruct Pf as [Lf [Cj [Csub [Chc [Cso [Chalt [Lno Pc]]]]]]].
+    set (pf := lab (func_label f)) in *.
+    pose proof Hl as [Hfp [H0 [H1 [H2 [CA [BR Hapz]]]]]].
+    specialize (Hap (lib_ap_sep m Hl L)).
+    destruct (stub_not_halts off_stack_overflow (sw m r1 (lw m fp - lw m (a_ap R))) Hl (or_intror eq_refl)) as [Nh Ws].
+    assert (Iap : inb m (a_ap R) w = true) by (apply inb_true; destruct L; rewrite Hapz, Hfp in *; lia).
+    destruct (entry_guard_idiom w Hw code cmem pf m (Imm (lab no)) (Imm (a_lib R + off_stack_overflow)) (a_lib R + off_stack_overflow)
+                r1 fp (a_ap R) (fun_need w fd) Cj ltac:(rewrite (oval_lab w cmem lab lab_range), Lno; f_equal; lia)
+                Csub ltac:(replace (pf + 2) with (pf + 1 + 1) by lia; exact Chc) ltac:(replace (pf + 3) with (pf + 1 + 1 + 1) by lia; exact Cso)
+                ltac:(replace (pf + 4) with (pf + 1 + 1 + 1 + 1) by lia; exact Chalt)
+                (lo_r1 w R lo m L) (lo_i1 w R lo m L) (lo_if w R lo m L) Iap ltac:(rewrite oval_imm, Ws; reflexivity)) as [_ [Gf _]].
+    assert (HW : W / 2 < W) by (pose proof (W_even w Hw1); pose proof (half_pos w Hw1); lia).
+    fold (FP m) in Gf. rewrite Hap in Gf. rewrite (wrap_small w (FP m - lo)), (wrap_small w (fun_need w fd)) in Gf by (unfold inrange; lia).
+    destruct (Gf ltac:(lia) (proj1 (stub_not_halts off_stack_overflow _ Hl (or_intror eq_refl)))) as [Rg _]. eexists. exact Rg.
+  - (* a call that returns *)
+    intros d f vs fd evs v s1 Hfd Hge Hb IHb m Hl Cf L Hd Hh Hs Hap Hv.
+    destruct (cf_ok f _ Cf) as [fd' [st [Hfd' [Hnp [Hnd [Pf Scf]]]]]]. rewrite Hfd in Hfd'. inversion Hfd'; subst fd'; clear Hfd'.
+    unfold lower_fun in Pf. destruct (add_label LNoOverflow st) as [no st1].
+    destruct (lower_stmts (is_you_senv w (fn_params fd)) None (fn_body fd) st1) as [[[c S1] st2] ex1] eqn:El.
+    cbn [fst app placed res_ins res_sym regaddr] in Pf. destruct Pf as [Lf [Cj [Csub [Chc [Cso [Chalt [Lno Pc]]]]]]].
+    set (pf := lab (func_label f)) in *.
+    pose proof Hl as [Hfp [H0 [H1 [H2 [CA [BR Hapz]]]]]].
+    pose proof (Hap (lib_ap_sep m Hl L)) as Hap'.
+    destruct (stub_not_halts off_stack_overflow (sw m r1 (lw m fp - lw m (a_ap R))) Hl (or_intror eq_refl)) as [Nh Ws].
+    assert (Iap : inb m (a_ap R) w = true) by (apply inb_true; destruct L; rewrite Hapz, Hfp in *; lia).
+    destruct (entry_guard_idiom w Hw code cmem pf m (Imm (lab no)) (Imm (a_lib R + off_stack_overflow)) (a_lib R + off_stack_overflow)
+                r1 fp (a_ap R) (fun_need w fd) Cj ltac:(rewrite (oval_lab w cmem lab lab_range), Lno; f_equal; lia)
+                Csub ltac:(replace (pf + 2) with (pf + 1 + 1) by lia; exact Chc) ltac:(replace (pf + 3) with (pf + 1 + 1 + 1) by lia; exact Cso)
+                ltac:(replace (pf + 4) with (pf + 1 + 1 + 1 + 1) by lia; exact Chalt)
+                (lo_r1 w R lo m L) (lo_i1 w R lo m L) (lo_if w R lo m L) Iap ltac:(rewrite oval_imm, Ws; reflexivity)) as [Gp _].
+    assert (HW : W / 2 < W) by (pose proof (W_even w Hw1); pose proof (half_pos w Hw1); lia).
+    fold (FP m) in Gp. rewrite Hap' in Gp. rewrite (wrap_small w (FP m - lo)), (wrap_small w (fun_need w fd)) in Gp by (unfold inrange; lia).
+    specialize (Gp ltac:(lia)).
+    set (Sf := is_you_senv w (fn_params fd)) in *.
+    assert (Ht : top Sf <= fun_need w fd) by (apply need_stmts_ge_top; cbn [Sf is_you_senv ws]; lia).
+    cbn [Sf is_you_senv top] in Ht.
+    assert (Lio : length (ioffs Sf) = fn_params fd) by (cbn [Sf is_you_senv ioffs]; now rewrite map_length, seq_length).
+    assert (E5 : pf + 1 + 1 + 1 + 1 + 1 = pf + 5) by lia. pose proof Pc as Pc'. rewrite E5 in Pc'.
+    destruct (IHb Sf None st1 c S1 st2 ex1 (pf + 5) m El Pc'
+                (wf_fun_senv _) (tight_fun_senv _) (rep_fun_entry _ vs m (eq_sym Hnp) L ltac:(lia) Hh Hs Hap ltac:(rewrite Hnp; exact Hv)) Hd
+                ltac:(rewrite Lio, Hnp; exact Scf) ltac:(unfold fun_need in Hge; fold Sf in Hge; lia)) as [m' [pc' [Ex [Rn [Fa Po]]]]].
+    cbn [exit_pc frame_post post] in Ex, Fa, Po. inversion Ex; subst pc'.
+    exists m'. split; [|split; [exact Fa | exact Po]].
+    change (map EOut evs) with ([] ++ map EOut evs). eapply runs_trans; [exact Gp | exact Rn].
+  - (* a call that faults inside *)
+    intros d f vs fd evs ft s1 Hfd Hge Hb IHb m Hl Cf L Hd Hh Hs Hap Hv.
+    destruct (cf_ok f _ Cf) as [fd' [st [Hfd' [Hnp [Hnd [Pf Scf]]]]]]. rewrite Hfd in Hfd'. inversion Hfd'; subst fd'; clear Hfd'.
+    unfold lower_fun in Pf. destruct (add_label LNoOverflow st) as [no st1].
+    destruct (lower_stmts (is_you_senv w (fn_params fd)) None (fn_body fd) st1) as [[[c S1] st2] ex1] eqn:El.
+    cbn [fst app placed res_ins res_sym regaddr] in Pf. destruct Pf as [Lf [Cj [Csub [Chc [Cso [Chalt [Lno Pc]]]]]]].
+    set (pf := lab (func_label f)) in *.
+    pose proof Hl as [Hfp [H0 [H1 [H2 [CA [BR Hapz]]]]]].
+    pose proof (Hap (lib_ap_sep m Hl L)) as Hap'.
+    destruct (stub_not_halts off_stack_overflow (sw m r1 (lw m fp - lw m (a_ap R))) Hl (or_intror eq_refl)) as [Nh Ws].
+    assert (Iap : inb m (a_ap R) w = true) by (apply inb_true; destruct L; rewrite Hapz, Hfp in *; lia).
+    destruct (entry_guard_idiom w Hw code cmem pf m (Imm (lab no)) (Imm (a_lib R + off_stack_overflow)) (a_lib R + off_stack_overflow)
+                r1 fp (a_ap R) (fun_need w fd) Cj ltac:(rewrite (oval_lab w cmem lab lab_range), Lno; f_equal; lia)
+                Csub ltac:(replace (pf + 2) with (pf + 1 + 1) by lia; exact Chc) ltac:(replace (pf + 3) with (pf + 1 + 1 + 1) by lia; exact Cso)
+                ltac:(replace (pf + 4) with (pf + 1 + 1 + 1 + 1) by lia; exact Chalt)
+                (lo_r1 w R lo m L) (lo_i1 w R lo m L) (lo_if w R lo m L) Iap ltac:(rewrite oval_imm, Ws; reflexivity)) as [Gp _].
+    assert (HW : W / 2 < W) by (pose proof (W_even w Hw1); pose proof (half_pos w Hw1); lia).
+    fold (FP m) in Gp. rewrite Hap' in Gp. rewrite (wrap_small w (FP m - lo)), (wrap_small w (fun_need w fd)) in Gp by (unfold inrange; lia).
+    specialize (Gp ltac:(lia)).
+    set (Sf := is_you_senv w (fn_params fd)) in *.
+    assert (Ht : top Sf <= fun_need w fd) by (apply need_stmts_ge_top; cbn [Sf is_you_senv ws]; lia).
+    cbn [Sf is_you_senv top] in Ht.
+    assert (Lio : length (ioffs Sf) = fn_params fd) by (cbn [Sf is_you_senv ioffs]; now rewrite map_length, seq_length).
+    assert (E5 : pf + 1 + 1 + 1 + 1 + 1 = pf + 5) by lia. pose proof Pc as Pc'. rewrite E5 in Pc'.
+    destruct (IHb Sf None st1 c S1 st2 ex1 (pf + 5) m El Pc'
+                (wf_fun_senv _) (tight_fun_senv _) (rep_fun_entry _ vs m (eq_sym Hnp) L ltac:(lia) Hh Hs Hap ltac:(rewrite Hnp; exact Hv)) Hd
+                ltac:(rewrite Lio, Hnp; exact Scf) ltac:(unfold fun_need in Hge; fold Sf in Hge; lia)) as [m' [pc' [Ex [Rn [Fa Po]]]]].
+    cbn [exit_pc] in Ex. inversion Ex; subst pc'.
+    exists m'. change (map EOut evs) with ([] ++ map EOut evs). eapply runs_trans; [exact Gp | exact Rn].
 Qed.
 End Stmt.
 
@@ -2211,6 +2351,22 @@ Proof.
   pose proof (eval_opd_nolabels (env_of S) o (top S) R1 false) as H.
   destruct (eval_opd (env_of S) (top S) R1 o false) as [c0 bub]. cbn [fst] in H.
   destruct bub; defl; rewrite H; reflexivity.
+Qed.
+Lemma eval_div_labels E top r op a b keep da : deflabels (fst (eval_div E top r op a b keep da)) = [da].
+Proof.
+  unfold eval_div. pose proof (compare_operands_nolabels (with_top E top) a b) as H.
+  destruct (compare_operands (with_top E top) a b) as [[c lhs] rhs]. cbn [fst] in H.
+  unfold finish_opd. destruct keep; cbn [fst]; unfold div_guard; defl; rewrite H; reflexivity.
+Qed.
+Lemma push_args_nolabels args : forall S, deflabels (push_args S args) = [].
+Proof. induction args as [|o r IH]; intros S; cbn [push_args]; [reflexivity|]. defl. rewrite decl_int_nolabels, IH. reflexivity. Qed.
+Lemma lower_return_nolabels S r : deflabels (lower_return S r) = [].
+Proof.
+  destruct r as [o|]; [|reflexivity]. cbn [lower_return].
+  pose proof (eval_opd_nolabels (env_of S) o (top S) R0 false) as H.
+  destruct (eval_opd (env_of S) (top S) R0 o false) as [c0 bub]. cbn [fst] in H.
+  pose proof (pop_value_nolabels R0 bub) as P. destruct (pop_value R0 bub) as [c1 v]. cbn [fst] in P.
+  defl. rewrite H, P. reflexivity.
 Qed.
 Lemma assign_bool_defs E off e st c st' : assign_bool E off e st = (c, st') ->
   st_le st st' /\ Forall (between st st') (deflabels c) /\ NoDup (deflabels c).
@@ -2318,6 +2474,25 @@ Proof.
     destruct (lower_stmts S li ss st) as [[[c S1] st1] ex1] eqn:E1. inversion Ev; subst. apply (IH _ _ _ _ _ _ _ E1).
   - intros S li st C S' st' ex Ev. cbn [lower_stmt] in Ev. inversion Ev; subst. apply defs_ok_nil. destruct li as [[? ?]|]; reflexivity.
   - intros S li st C S' st' ex Ev. cbn [lower_stmt] in Ev. inversion Ev; subst. apply defs_ok_nil. destruct li as [[? ?]|]; reflexivity.
+  - (* int x = a / b *)
+    intros op a b S li st C S' st' ex Ev. cbn [lower_stmt] in Ev.
+    pose proof (add_label_le LDivAllowed st) as M1. pose proof (single_blk LDivAllowed st) as B1.
+    destruct (add_label LDivAllowed st) as [da st1]. cbn [fst snd] in M1, B1. inversion Ev; subst C S' st' ex; clear Ev.
+    unfold defs_ok, decl_div. rewrite eval_div_labels. cbn [blk_ok] in B1. destruct B1 as [F1 D1]. split; [exact M1|]. split; assumption.
+  - (* xi = a / b *)
+    intros i op a b S li st C S' st' ex Ev. cbn [lower_stmt] in Ev.
+    pose proof (add_label_le LDivAllowed st) as M1. pose proof (single_blk LDivAllowed st) as B1.
+    destruct (add_label LDivAllowed st) as [da st1]. cbn [fst snd] in M1, B1. inversion Ev; subst C S' st' ex; clear Ev.
+    unfold defs_ok, assign_div. defl. rewrite eval_div_labels. cbn [app]. cbn [blk_ok] in B1. destruct B1 as [F1 D1]. split; [exact M1|]. split; assumption.
+  - (* call *)
+    intros dst f args S li st C S' st' ex Ev. cbn [lower_stmt] in Ev.
+    pose proof (add_label_le LEndCall st) as M1. pose proof (single_blk LEndCall st) as B1.
+    destruct (add_label LEndCall st) as [ec st1]. cbn [fst snd] in M1, B1. inversion Ev; subst C S' st' ex; clear Ev.
+    assert (Eq : deflabels (lower_call S ec dst f args) = [ec]).
+    { unfold lower_call, call_seq. defl. rewrite push_args_nolabels. destruct dst; reflexivity. }
+    unfold defs_ok. rewrite Eq. cbn [blk_ok] in B1. destruct B1 as [F1 D1]. split; [exact M1|]. split; assumption.
+  - (* return *)
+    intros r S li st C S' st' ex Ev. cbn [lower_stmt] in Ev. inversion Ev; subst. apply defs_ok_nil, lower_return_nolabels.
   - intros S li st C S' st' ex Ev. cbn [lower_stmts] in Ev. inversion Ev; subst. apply defs_ok_nil. reflexivity.
   - intros s IHs r IHr S li st C S' st' ex Ev. cbn [lower_stmts] in Ev.
     destruct (lower_stmt S li s st) as [[[c S1] st1] ex1] eqn:E1. destruct (IHs _ _ _ _ _ _ _ E1) as [M1 [F1 D1]].
@@ -2332,43 +2507,53 @@ Hypothesis Hw : 2 <= w.
 Variable code : Z -> option instr.
 Variable cmem : mem.
 Variable R : regmap.
-Variable lo fb : Z.
+Variable lo : Z.
 Variable ext : label -> Z.
 Hypothesis ext_range : forall x, 0 <= ext x < Machine.W w.
+Variable funs : list fundef.
 Notation act := (Machine.act w code cmem).
 Notation Halts := (HidV.Sphinx.Halts.Halts act).
 Notation runs := (HidV.Sphinx.Halts.runs act).
 Notation FP := (LowerBoolProofs.FP w R).
+(* statement lists without calls of the program's functions (calls: program_lowering_correct) *)
+Definition no_calls (f n : nat) : Prop := False.
+Notation scoped := (ssscoped w (lib_hyps w R code) no_calls).
 
-(* statement lists inside a loop whose continue / break labels are defined elsewhere *)
-Theorem stmts_lowering_correct_gen ss s0 evs out s1 S li st B m :
-  execs w ss s0 evs out s1 ->
+(* statement lists inside a loop whose continue / break labels are defined elsewhere: where the run
+   ends (the end of the code, a loop label, the return address, a fault stub), what has changed,
+   what the memory represents *)
+Theorem stmts_lowering_correct_gen ss d s0 evs out s1 S li st B m :
+  execs w funs d ss s0 evs out s1 ->
   let r := lower_stmts S li ss st in
   let C := fst (fst (fst r)) in
   let S' := snd (fst (fst r)) in
   code_at code B (resolve R ext B C) -> 0 <= B -> B + size C < Machine.W w ->
   match li with Some (lc, lb) => below st lc /\ below st lb | None => True end ->
-  wf_senv w fb S -> rep w R lo S s0 m ->
-  ssscoped w (lib_hyps w R code) (length (ioffs S)) (length (boffs S)) (match li with Some _ => true | None => false end) ss ->
+  wf_senv w w S -> tight w S -> rep w R lo S s0 m -> d = FP m - lo ->
+  scoped (length (ioffs S)) (length (boffs S)) (match li with Some _ => true | None => false end) ss ->
   need_stmts S ss <= FP m - lo ->
   exists m' pc',
     match out, li with
     | ONormal, _ => pc' = B + size C
     | OBreak, Some (_, lb) => pc' = ext lb
     | OContinue, Some (lc, _) => pc' = ext lc
+    | OReturn _, _ => pc' = Machine.lw w m (FP m - w)
+    | OFault ft, _ => pc' = a_lib R + fault_off ft
     | _, None => False
     end /\
-    runs (mk B m) (map EOut evs) (mk pc' m') /\ fagree w R lo fb m m' /\
-    match out with ONormal => rep w R lo S' s1 m' /\ wf_senv w fb S' | _ => rep w R lo S (trunc s0 s1) m' end.
+    runs (mk B m) (map EOut evs) (mk pc' m') /\ frame_post w R lo w out m m' /\ post w R lo w S S' s0 s1 out m m'.
 Proof.
-  intros Hx r C S' CA HB HS Hli Wf Rp Sc Hn.
+  intros Hx r C S' CA HB HS Hli Wf Tg Rp Hd Sc Hn.
   destruct (lower_stmts S li ss st) as [[[C0 S1] st'] ex] eqn:L. cbn [fst snd] in r, C, S'. subst C S'.
   destruct (proj2 lower_stmts_defs ss S li st C0 S1 st' ex L) as [_ [Fb Nd]].
   destruct (resolved_placed code R ext B C0 _ ext_range Nd CA HB HS) as [P LR].
   set (lab := labenv ext B C0) in *.
-  destruct (proj2 (stmts_runs w R lo fb Hw code cmem lab LR) ss s0 evs out s1 Hx S li st C0 S1 st' ex B m L P Wf Rp Sc Hn)
+  assert (Cfk : forall f n, no_calls f n -> exists fd st, nth_error funs f = Some fd /\ fn_params fd = n /\
+            0 <= fun_need w fd < Machine.W w / 2 /\ placed R lab code (fst (lower_fun w f fd st)) (lab (func_label f)) /\
+            scoped n 0%nat false (fn_body fd)) by (intros f n []).
+  destruct (proj1 (proj2 (stmts_runs w R lo w Hw code cmem lab LR funs no_calls eq_refl Cfk)) d ss s0 evs out s1 Hx S li st C0 S1 st' ex B m L P Wf Tg Rp Hd Sc Hn)
     as [m' [pc' [Ex [Rn [Fa Po]]]]].
-  exists m', pc'. split; [|split; [exact Rn|split; [exact Fa | destruct out; exact Po]]].
+  exists m', pc'. split; [|split; [exact Rn|split; [exact Fa | exact Po]]].
   assert (Xl : forall l, below st l -> lab l = ext l).
   { intros l Hb. apply labenv_ext. intro I. rewrite Forall_forall in Fb. exact (below_not_between st st' l Hb (Fb _ I)). }
   destruct out, li as [[lc lb]|]; cbn [exit_pc] in Ex; try discriminate Ex; inversion Ex; subst pc';
@@ -2378,200 +2563,407 @@ Qed.
 (* THE STATEMENT THEOREM: a terminating run of the source program from store s0, producing the
    output bytes evs and ending normally in store s1, is matched by a silent-except-for-output run
    of the lowered code from any memory representing s0 to a memory representing s1 *)
-Theorem stmts_lowering_correct ss s0 evs s1 S st B m :
-  execs w ss s0 evs ONormal s1 ->
+Theorem stmts_lowering_correct ss d s0 evs s1 S st B m :
+  execs w funs d ss s0 evs ONormal s1 ->
   let r := lower_stmts S None ss st in
   let C := fst (fst (fst r)) in
   let S' := snd (fst (fst r)) in
   code_at code B (resolve R ext B C) -> 0 <= B -> B + size C < Machine.W w ->
-  wf_senv w fb S -> rep w R lo S s0 m ->
-  ssscoped w (lib_hyps w R code) (length (ioffs S)) (length (boffs S)) false ss ->
+  wf_senv w w S -> tight w S -> rep w R lo S s0 m -> d = FP m - lo ->
+  scoped (length (ioffs S)) (length (boffs S)) false ss ->
   need_stmts S ss <= FP m - lo ->
   exists m', runs (mk B m) (map EOut evs) (mk (B + size C) m') /\
-             rep w R lo S' s1 m' /\ wf_senv w fb S' /\ fagree w R lo fb m m'.
+             rep w R lo S' s1 m' /\ wf_senv w w S' /\ fagree w R lo w m m'.
 Proof.
-  intros Hx r C S' CA HB HS Wf Rp Sc Hn.
-  destruct (stmts_lowering_correct_gen ss s0 evs ONormal s1 S None st B m Hx CA HB HS I Wf Rp Sc Hn)
+  intros Hx r C S' CA HB HS Wf Tg Rp Hd Sc Hn.
+  destruct (stmts_lowering_correct_gen ss d s0 evs ONormal s1 S None st B m Hx CA HB HS I Wf Tg Rp Hd Sc Hn)
     as [m' [pc' [-> [Rn [Fa [Rp' Wf']]]]]].
   exists m'. split; [exact Rn|]. split; [exact Rp'|]. split; assumption.
 Qed.
-(* divergence is preserved the other way round: `runs` transports Halts both ways, so if the
-   continuation of the statements never halts, neither does their start state *)
-Corollary stmts_no_new_halt ss s0 evs s1 S st B m :
-  execs w ss s0 evs ONormal s1 ->
+(* a zero divisor: the run ends in the division_by_zero stub of the runtime library *)
+Theorem stmts_fault_correct ss d s0 evs ft s1 S st B m :
+  execs w funs d ss s0 evs (OFault ft) s1 ->
   let C := fst (fst (fst (lower_stmts S None ss st))) in
   code_at code B (resolve R ext B C) -> 0 <= B -> B + size C < Machine.W w ->
-  wf_senv w fb S -> rep w R lo S s0 m ->
-  ssscoped w (lib_hyps w R code) (length (ioffs S)) (length (boffs S)) false ss ->
+  wf_senv w w S -> tight w S -> rep w R lo S s0 m -> d = FP m - lo ->
+  scoped (length (ioffs S)) (length (boffs S)) false ss ->
+  need_stmts S ss <= FP m - lo ->
+  exists m', runs (mk B m) (map EOut evs) (mk (a_lib R + fault_off ft) m').
+Proof.
+  intros Hx C CA HB HS Wf Tg Rp Hd Sc Hn.
+  destruct (stmts_lowering_correct_gen ss d s0 evs (OFault ft) s1 S None st B m Hx CA HB HS I Wf Tg Rp Hd Sc Hn)
+    as [m' [pc' [-> [Rn _]]]].
+  exists m'. exact Rn.
+Qed.
+(* divergence is preserved the other way round: `runs` transports Halts both ways, so if the
+   continuation of the statements never halts, neither does their start state *)
+Corollary stmts_no_new_halt ss d s0 evs s1 S st B m :
+  execs w funs d ss s0 evs ONormal s1 ->
+  let C := fst (fst (fst (lower_stmts S None ss st))) in
+  code_at code B (resolve R ext B C) -> 0 <= B -> B + size C < Machine.W w ->
+  wf_senv w w S -> tight w S -> rep w R lo S s0 m -> d = FP m - lo ->
+  scoped (length (ioffs S)) (length (boffs S)) false ss ->
   need_stmts S ss <= FP m - lo ->
   (forall m', ~ Halts (mk (B + size C) m')) -> ~ Halts (mk B m).
 Proof.
-  intros Hx C CA HB HS Wf Rp Sc Hn Nh.
-  destruct (stmts_lowering_correct ss s0 evs s1 S st B m Hx CA HB HS Wf Rp Sc Hn) as [m' [Rn _]].
+  intros Hx C CA HB HS Wf Tg Rp Hd Sc Hn Nh.
+  destruct (stmts_lowering_correct ss d s0 evs s1 S st B m Hx CA HB HS Wf Tg Rp Hd Sc Hn) as [m' [Rn _]].
   intro Hh. apply (Nh m'). apply (proj1 Rn). exact Hh.
 Qed.
 
-(* a whole body `{ ss }` of an `empty` function: the statements, then the implicit return through
+(* a whole body `{ ss }` of an `empty` function: the statements, then the `return;` the front end
+   appends: lower_body is the lowering of the statements followed by `return;` *)
+Lemma lower_stmts_app_return ss : forall S li st,
+  let '(c, S1, st1, ex) := lower_stmts S li ss st in
+  ex = false -> exists Sx, lower_stmts S li (stmts_snoc ss (SReturn None)) st = (c ++ lower_return S1 None, Sx, st1, true).
+Proof.
+  induction ss as [|s r IH]; intros S li st; cbn [lower_stmts stmts_snoc].
+  - intros _. exists S. reflexivity.
+  - destruct (lower_stmt S li s st) as [[[c S1] st1] ex1]. destruct ex1; [intros; discriminate|].
+    specialize (IH S1 li st1). destruct (lower_stmts S1 li r st1) as [[[cr S2] st2] ex2].
+    intros E. destruct (IH E) as [Sx Ex]. rewrite Ex. exists Sx. now rewrite app_assoc.
+Qed.
+(* a whole body `{ ss }` of an `empty` function: the statements, then the implicit `return;` through
    the return-address slot at [fp] - w *)
-Theorem body_lowering_correct ss s0 evs s1 S st B m : w <= fb ->
-  execs w ss s0 evs ONormal s1 ->
+Theorem body_lowering_correct ss d s0 evs s1 S st B m :
+  execs w funs d ss s0 evs ONormal s1 ->
   let C := fst (lower_body S ss st) in
   code_at code B (resolve R ext B C) -> 0 <= B -> B + size C < Machine.W w ->
-  wf_senv w fb S -> rep w R lo S s0 m ->
-  ssscoped w (lib_hyps w R code) (length (ioffs S)) (length (boffs S)) false ss ->
+  wf_senv w w S -> tight w S -> rep w R lo S s0 m -> d = FP m - lo ->
+  scoped (length (ioffs S)) (length (boffs S)) false ss ->
   need_stmts S ss <= FP m - lo ->
   let ra := Machine.lw w m (FP m - w) in
-  exists m', runs (mk B m) (map EOut evs) (mk ra m') /\ fagree w R lo fb m m' /\ Machine.lw w m' (a_r1 R) = ra.
+  exists m', runs (mk B m) (map EOut evs) (mk ra m') /\ agree w R lo (FP m) m m'.
 Proof.
-  intros Hfb Hx C CA HB HS Wf Rp Sc Hn ra. assert (Hw1 : 1 <= w) by lia.
-  unfold lower_body in C. destruct (lower_stmts S None ss st) as [[[C0 S1] st'] ex] eqn:L. cbn [fst] in C. subst C.
+  intros Hx C CA HB HS Wf Tg Rp Hd Sc Hn ra.
+  unfold lower_body in C. pose proof (lower_stmts_extends w w code ss S None st ltac:(rewrite (wfs_w w w S Wf); lia)) as X1.
+  destruct (lower_stmts S None ss st) as [[[C0 S1] st'] ex] eqn:L. cbn [fst] in C. subst C.
   set (tail := [AInstr (ALwso R1 (SReg RFp) (SLit (- ws S))); AInstr (AJump (SReg R1)); AInstr AHaltI]) in *.
   destruct (proj2 lower_stmts_defs ss S None st C0 S1 st' ex L) as [_ [Fb Nd]].
   assert (Nd' : NoDup (deflabels (C0 ++ tail))) by (rewrite deflabels_app; cbn [tail deflabels]; rewrite app_nil_r; exact Nd).
   destruct (resolved_placed code R ext B (C0 ++ tail) _ ext_range Nd' CA HB HS) as [P LR].
   set (lab := labenv ext B (C0 ++ tail)) in *.
-  apply placed_app in P. destruct P as [P0 Pt]. cbn [tail placed res_ins res_sym regaddr] in Pt. destruct Pt as [Cl [Cj [Ch _]]].
-  destruct (proj2 (stmts_runs w R lo fb Hw code cmem lab LR) ss s0 evs ONormal s1 Hx S None st C0 S1 st' ex B m L P0 Wf Rp Sc Hn)
-    as [m1 [pc1 [Ex [Rn [Fa Po]]]]].
-  cbn [exit_pc] in Ex. inversion Ex; subst pc1. clear Po.
-  pose proof (rp_regs w R lo S s0 m Rp) as L0. pose proof (regs_ok_agree w R lo Hw _ m m1 L0 Fa) as L1.
-  pose proof (FP_agree w R lo Hw _ m m1 L0 Fa) as F1.
-  pose proof (wfs_fb w fb S Wf) as Ofb. pose proof (wfs_w w fb S Wf) as Ews. rewrite Ews in Cl.
-  assert (Hlo : 0 <= lo) by (destruct L0; lia).
-  assert (Ow : 0 < w <= Machine.W w / 2) by (destruct Rp; lia).
-  assert (I0 : inb m (FP m - w) w = true) by (apply inb_true; destruct Rp; lia).
-  assert (I1 : inb m1 (FP m1 - w) w = true) by (rewrite F1, (agree_inb w R lo _ m m1 _ _ Fa); exact I0).
-  pose proof (act_lwso w code cmem _ m1 (a_r1 R) (St (a_fp R)) (Imm (- w)) (FP m1) (Machine.wrap w (- w)) Cl
-                (oval_st w cmem m1 _ (lo_if w R lo m1 L1)) (oval_imm w cmem m1 _)) as Al.
-  rewrite (frame_addr w R lo Hw m1 w L1 Ow) in Al. specialize (Al I1 (lo_i1 w R lo m1 L1)).
-  assert (Era : Machine.lw w m1 (FP m1 - w) = ra).
-  { rewrite F1. unfold ra. apply (agree_lw w R lo Hw (FP m - fb) m m1); [exact Fa | destruct Rp; lia |].
-    unfold dj. destruct L0, Rp. lia. }
-  rewrite Era in Al. set (m2 := Machine.sw w m1 (a_r1 R) ra) in *.
-  assert (Vr : Machine.lw w m2 (a_r1 R) = ra).
-  { unfold m2. rewrite (lw_sw_same w Hw1) by apply (lo_r1 w R lo m1 L1). apply (wrap_small w).
-    unfold ra. apply (lw_range w Hw1). apply (lo_wf w R lo m L0). }
-  pose proof (goto_reg w code cmem _ m2 (a_r1 R) Cj Ch ltac:(unfold m2; rewrite inb_sw; apply (lo_i1 w R lo m1 L1))) as G.
-  rewrite Vr in G.
-  exists m2. split; [|split; [|exact Vr]].
-  - rewrite <- (app_nil_r (map EOut evs)). change (@nil event) with (@nil event ++ []).
-    eapply runs_trans; [exact Rn|]. eapply runs_trans; [apply (runs_next act _ _ None Al) | exact G].
-  - apply (fagree_trans w R lo fb Hw m m1 m2 L0 Fa). unfold LowerStmtProofs.fagree, m2.
-    apply (agree_sw w R lo Hw); [apply (lo_r1 w R lo m1 L1) | auto].
+  apply placed_app in P. destruct P as [P0 Pt].
+  assert (Cfk : forall f n, no_calls f n -> exists fd st, nth_error funs f = Some fd /\ fn_params fd = n /\
+            0 <= fun_need w fd < Machine.W w / 2 /\ placed R lab code (fst (lower_fun w f fd st)) (lab (func_label f)) /\
+            scoped n 0%nat false (fn_body fd)) by (intros f n []).
+  destruct (proj1 (proj2 (stmts_runs w R lo w Hw code cmem lab LR funs no_calls eq_refl Cfk)) d ss s0 evs ONormal s1 Hx S None st C0 S1 st' ex B m L P0 Wf Tg Rp Hd Sc Hn)
+    as [m1 [pc1 [Ex [Rn [Fa [Rp1 Wf1]]]]]].
+  cbn [exit_pc] in Ex. inversion Ex; subst pc1. cbn [frame_post] in Fa.
+  assert (Ews : ws S1 = ws S) by (destruct X1 as [_ [_ [_ E]]]; exact E).
+  assert (Pt' : placed R lab code (lower_return S1 None) (B + size C0)) by (cbn [lower_return]; rewrite Ews; exact Pt).
+  destruct (return_runs w R lo w Hw code cmem lab eq_refl S1 s1 m1 None _ Wf1 Rp1 I Pt') as [m2 [R2 [A2 _]]].
+  pose proof (rp_regs w R lo S s0 m Rp) as L0. pose proof (FP_agree w R lo Hw _ m m1 L0 Fa) as F1.
+  rewrite (ra_fagree w R lo w Hw eq_refl S s0 m m1 Wf Rp Fa) in R2. rewrite F1 in A2.
+  exists m2. split.
+  - rewrite <- (app_nil_r (map EOut evs)). eapply runs_trans; [exact Rn | exact R2].
+  - eapply (agree_trans w R lo); [|exact A2]. apply (agree_mono w R lo (FP m - w)); [lia | exact Fa].
 Qed.
 End TopS.
 
 (* ================================================================================= *)
 (* a fuelled interpreter for the source semantics, sound for the relation              *)
-(* ================================================================================= *)
-Section Interp.
-Variable w : Z.
-Fixpoint istmt (fuel : nat) (s : stmt) (s0 : store) : option (list Z * outcome * store) :=
-  match fuel with
-  | O => None
-  | S f =>
-    match s with
-    | SDeclI o => Some ([], ONormal, mkstore (si s0 ++ [ieval w s0 o]) (sb s0))
-    | SAssignI i o => if (i <? length (si s0))%nat then Some ([], ONormal, mkstore (upd i (ieval w s0 o) (si s0)) (sb s0)) else None
-    | SDeclB e => Some ([], ONormal, mkstore (si s0) (sb s0 ++ [b2z (bevals w s0 e)]))
-    | SAssignB j e => if (j <? length (sb s0))%nat then Some ([], ONormal, mkstore (si s0) (upd j (b2z (bevals w s0 e)) (sb s0))) else None
-    | SWrite x => Some ([wbyte w s0 x], ONormal, s0)
-    | SWriteln => Some ([10], ONormal, s0)
-    | SWriteI ln o => Some (decimal (ieval w s0 o) ++ (if ln then [10] else []), ONormal, s0)
-    | SWriteB ln e => Some ((if bevals w s0 e then str_true else str_false) ++ (if ln then [10] else []), ONormal, s0)
-    | SIf c s1 s2 =>
-        match istmts f (if bevals w s0 c then s1 else s2) s0 with
-        | Some (e, out, s') => Some (e, out, trunc s0 s')
-        | None => None
-        end
-    | SWhile c b k =>
-        if bevals w s0 c then
-          match istmts f b s0 with
-          | Some (e1, OBreak, s1) => Some (e1, ONormal, trunc s0 s1)
-          | Some (e1, _, s1) =>
-              match istmts f k (trunc s0 s1) with
-              | Some (e2, ONormal, s2) =>
-                  match istmt f (SWhile c b k) (trunc s0 s2) with
-                  | Some (e3, ONormal, s3) => Some (e1 ++ e2 ++ e3, ONormal, s3)
-                  | _ => None
-                  end
-              | _ => None
-              end
-          | None => None
-          end
-        else Some ([], ONormal, s0)
-    | SBlock ss =>
-        match istmts f ss s0 with
-        | Some (e, out, s') => Some (e, out, trunc s0 s')
-        | None => None
-        end
-    | SBreak => Some ([], OBreak, s0)
-    | SContinue => Some ([], OContinue, s0)
-    end
-  end
-with istmts (fuel : nat) (ss : stmts) (s0 : store) : option (list Z * outcome * store) :=
-  match fuel with
-  | O => None
-  | S f =>
-    match ss with
-    | SNil => Some ([], ONormal, s0)
-    | SCons s r =>
-        match istmt f s s0 with
-        | Some (e1, ONormal, s1) =>
-            match istmts f r s1 with
-            | Some (e2, out, s2) => Some (e1 ++ e2, out, s2)
-            | None => None
-            end
-        | Some (e1, out, s1) => Some (e1, out, s1)
-        | None => None
-        end
-    end
-  end.
 
-Theorem interp_sound fuel :
-  (forall s s0 e out s1, istmt fuel s s0 = Some (e, out, s1) -> exec w s s0 e out s1) /\
-  (forall ss s0 e out s1, istmts fuel ss s0 = Some (e, out, s1) -> execs w ss s0 e out s1).
+(* ================================================================================= *)
+(* 8  whole programs                                                                   *)
+(* ================================================================================= *)
+(* ---------- an executable check of the static side conditions ---------- *)
+Section Check.
+Variable w : Z.
+Variable cfb : nat -> nat -> bool.
+Notation oscoped_b := (LowerStmtSem.oscoped_b w).
+Notation bscoped_b := (LowerStmtSem.bscoped_b w).
+Notation sscoped_b := (LowerStmtSem.sscoped_b w cfb).
+Notation ssscoped_b := (LowerStmtSem.ssscoped_b w cfb).
+Variable lib : Prop.
+Variable cf : nat -> nat -> Prop.
+Hypothesis Hlib : lib.
+Hypothesis cfb_ok : forall f n, cfb f n = true -> cf f n.
+Lemma oscoped_b_ok ni o : oscoped_b ni o = true -> oscoped w ni o.
 Proof.
-  induction fuel as [|f [IHs IHss]]; [split; intros; discriminate|]. split.
-  - intros s s0 e out s1 H. destruct s as [o|i o|b|j b|x| |ln o|ln b|c t1 t2|c b k|ss| |]; cbn [istmt] in H.
-    + inversion H; subst. constructor.
-    + destruct (Nat.ltb_spec i (length (si s0))); [|discriminate]. inversion H; subst. constructor. assumption.
-    + inversion H; subst. constructor.
-    + destruct (Nat.ltb_spec j (length (sb s0))); [|discriminate]. inversion H; subst. constructor. assumption.
-    + inversion H; subst. constructor.
-    + inversion H; subst. constructor.
-    + inversion H; subst. constructor.
-    + inversion H; subst. constructor.
-    + destruct (istmts f (if bevals w s0 c then t1 else t2) s0) as [[[e' out'] s']|] eqn:E; [|discriminate].
-      inversion H; subst. constructor. apply IHss. exact E.
-    + destruct (bevals w s0 c) eqn:Ec; [|inversion H; subst; apply X_while_false; exact Ec].
-      destruct (istmts f b s0) as [[[e1 out1] s1']|] eqn:Eb; [|discriminate].
-      assert (Next : out1 <> OBreak ->
-                match istmts f k (trunc s0 s1') with
-                | Some (e2, ONormal, s2) =>
-                    match istmt f (SWhile c b k) (trunc s0 s2) with
-                    | Some (e3, ONormal, s3) => Some (e1 ++ e2 ++ e3, ONormal, s3)
-                    | _ => None
-                    end
-                | _ => None
-                end = Some (e, out, s1) -> exec w (SWhile c b k) s0 e out s1).
-      { intros Nb H'. destruct (istmts f k (trunc s0 s1')) as [[[e2 [| |]] s2]|] eqn:Ek; try discriminate.
-        destruct (istmt f (SWhile c b k) (trunc s0 s2)) as [[[e3 [| |]] s3]|] eqn:Ew; try discriminate.
-        inversion H'; subst. eapply X_while_next; [exact Ec | apply IHss; exact Eb | exact Nb | apply IHss; exact Ek | apply IHs; exact Ew]. }
-      destruct out1; [apply Next; [discriminate | exact H] | | apply Next; [discriminate | exact H]].
-      inversion H; subst. eapply X_while_break; [exact Ec | apply IHss; exact Eb].
-    + destruct (istmts f ss s0) as [[[e' out'] s']|] eqn:E; [|discriminate]. inversion H; subst. constructor. apply IHss. exact E.
-    + inversion H; subst. constructor.
-    + inversion H; subst. constructor.
-  - intros ss s0 e out s1 H. destruct ss as [|s r]; cbn [istmts] in H; [inversion H; subst; constructor|].
-    destruct (istmt f s s0) as [[[e1 out1] s1']|] eqn:E1; [|discriminate].
-    destruct out1.
-    + destruct (istmts f r s1') as [[[e2 out2] s2]|] eqn:E2; [|discriminate]. inversion H; subst.
-      eapply XS_cons; [apply IHs; exact E1 | apply IHss; exact E2].
-    + inversion H; subst. apply XS_exit; [apply IHs; exact E1 | discriminate].
-    + inversion H; subst. apply XS_exit; [apply IHs; exact E1 | discriminate].
+  induction o as [z|i|op x IHx y IHy|u x IHx]; cbn [oscoped_b oscoped]; intros H.
+  - apply andb_true_iff in H. destruct H as [H1 H2]. apply Z.leb_le in H1. apply Z.ltb_lt in H2. lia.
+  - apply Nat.ltb_lt. exact H.
+  - apply andb_true_iff in H. destruct H as [H H2]. apply andb_true_iff in H. destruct H as [H0 H1].
+    split; [destruct op; try discriminate H0; exact I | split; auto].
+  - auto.
 Qed.
-End Interp.
+Lemma bscoped_b_ok ni nb e : bscoped_b ni nb e = true -> bscoped w ni nb e.
+Proof.
+  induction e as [b|j|op a b|e1 IH|e1 IH1 e2 IH2|e1 IH1 e2 IH2]; cbn [bscoped_b bscoped]; intros H; auto.
+  - apply Nat.ltb_lt. exact H.
+  - apply andb_true_iff in H. destruct H. split; apply oscoped_b_ok; assumption.
+  - apply andb_true_iff in H. destruct H. split; auto.
+  - apply andb_true_iff in H. destruct H. split; auto.
+Qed.
+Ltac andb_split H := repeat (apply andb_true_iff in H; let H' := fresh H in destruct H as [H H']).
+Lemma scoped_b_ok :
+  (forall s ni nb il, sscoped_b ni nb il s = true -> sscoped w lib cf ni nb il s) /\
+  (forall ss ni nb il, ssscoped_b ni nb il ss = true -> ssscoped w lib cf ni nb il ss).
+Proof.
+  apply stmt_stmts_ind.
+  - intros o ni nb il H. apply oscoped_b_ok. exact H.
+  - intros i o ni nb il H. cbn [sscoped_b sscoped] in *. andb_split H. split; [apply Nat.ltb_lt; assumption | apply oscoped_b_ok; assumption].
+  - intros e ni nb il H. apply bscoped_b_ok. exact H.
+  - intros j e ni nb il H. cbn [sscoped_b sscoped] in *. andb_split H. split; [apply Nat.ltb_lt; assumption | apply bscoped_b_ok; assumption].
+  - intros x ni nb il H. destruct x; cbn [sscoped_b sscoped] in *; auto using oscoped_b_ok.
+  - intros; exact I.
+  - intros ln o ni nb il H. cbn [sscoped_b sscoped] in *. split; [apply oscoped_b_ok; assumption | exact Hlib].
+  - intros ln e ni nb il H. cbn [sscoped_b sscoped] in *. split; [apply bscoped_b_ok; assumption | exact Hlib].
+  - intros c s1 IH1 s2 IH2 ni nb il H. cbn [sscoped_b sscoped] in *. andb_split H. split; [apply bscoped_b_ok; assumption | split; auto].
+  - intros c b IH1 k IH2 ni nb il H. cbn [sscoped_b sscoped] in *. andb_split H. split; [apply bscoped_b_ok; assumption | split; auto].
+  - intros ss IH ni nb il H. cbn [sscoped_b sscoped] in *. auto.
+  - intros ni nb il H. exact H.
+  - intros ni nb il H. exact H.
+  - intros op a b ni nb il H. cbn [sscoped_b sscoped] in *. andb_split H.
+    split; [destruct op; cbn [divop_b] in *; try discriminate; auto | split; [apply oscoped_b_ok; assumption | split; [apply oscoped_b_ok; assumption | exact Hlib]]].
+  - intros i op a b ni nb il H. cbn [sscoped_b sscoped] in *. andb_split H.
+    split; [apply Nat.ltb_lt; assumption|].
+    split; [destruct op; cbn [divop_b] in *; try discriminate; auto | split; [apply oscoped_b_ok; assumption | split; [apply oscoped_b_ok; assumption | exact Hlib]]].
+  - intros dst f args ni nb il H. cbn [sscoped_b sscoped] in *. andb_split H.
+    split; [destruct dst; try exact I; apply Nat.ltb_lt; assumption|]. split; [apply cfb_ok; assumption|].
+    split; [|exact Hlib]. apply Forall_forall. intros o Ho. apply oscoped_b_ok.
+    match goal with Hf : forallb _ _ = true |- _ => rewrite forallb_forall in Hf; apply Hf; exact Ho end.
+  - intros r ni nb il H. destruct r; cbn [sscoped_b sscoped] in *; auto using oscoped_b_ok.
+  - intros; exact I.
+  - intros s IHs r IHr ni nb il H. cbn [ssscoped_b ssscoped] in *. andb_split H. split; [apply IHs; assumption|].
+    destruct s as [o|i o|e|j e|x| |ln o|ln e|c0 t1 t2|c0 b k|ss| | |op a b|i op a b|dst f args|rv]; try destruct dst; apply IHr; assumption.
+Qed.
+End Check.
+
+(* ---------- the layout of a whole program ---------- *)
+Lemma length_instrs R lab l : Z.of_nat (length (instrs R lab l)) = size l.
+Proof. induction l as [|[x|i] r IH]; cbn [instrs size length]; lia. Qed.
+Lemma lib_at_after w P B : B = Z.of_nat (length P) -> lib_at w (code_of (P ++ stdlib_code w B)) B.
+Proof.
+  intros EB k Hk. unfold code_of. destruct (Z.ltb_spec (B + k) 0); [lia|].
+  rewrite nth_error_app2 by lia. f_equal. lia.
+Qed.
+(* every generated function is placed at its label *)
+Lemma lower_funs_placed R lab code w funs : forall ord st p, placed R lab code (lower_funs w funs ord st) p ->
+  Forall (fun f => nth_error funs f <> None) ord ->
+  forall f, In f ord -> exists fd stf, nth_error funs f = Some fd /\ placed R lab code (fst (lower_fun w f fd stf)) (lab (func_label f)).
+Proof.
+  induction ord as [|g r IH]; intros st p P Ok f I; [contradiction|].
+  inversion Ok as [|? ? Hg Okr]; subst. cbn [lower_funs] in P.
+  destruct (nth_error funs g) as [fd|] eqn:Eg; [|contradiction].
+  destruct (lower_fun w g fd st) as [c st1] eqn:El. apply placed_app in P. destruct P as [Pc Pr].
+  destruct I as [->|I]; [|apply (IH st1 _ Pr Okr f I)].
+  exists fd, st. split; [exact Eg|]. rewrite El. cbn [fst].
+  assert (Ep : lab (func_label f) = p).
+  { unfold lower_fun in El. destruct (add_label LNoOverflow st) as [no st']. destruct (lower_stmts _ None (fn_body fd) st') as [[[cc S1] st2] ex].
+    inversion El; subst c. cbn [app placed] in Pc. tauto. }
+  rewrite Ep. exact Pc.
+Qed.
+
+
+(* ---------- the labels of a whole program are defined once ---------- *)
+(* the function labels func_<name>_0 are taken from the start: no counter ever produces them again *)
+Definition fresh_st (st : lstate) : Prop := forall f, (1 <= st (LFunc f))%nat.
+Lemma func_not_between st st' f : fresh_st st -> ~ between st st' (func_label f).
+Proof. unfold between, func_label; cbn [fst snd]. intros H [A _]. specialize (H f). lia. Qed.
+Lemma fresh_st_le st st' : fresh_st st -> st_le st st' -> fresh_st st'.
+Proof. intros H L f. specialize (H f). specialize (L (LFunc f)). lia. Qed.
+Lemma lower_fun_defs w f fd st c st1 : lower_fun w f fd st = (c, st1) ->
+  st_le st st1 /\ exists L, deflabels c = func_label f :: L /\ Forall (between st st1) L /\ NoDup L.
+Proof.
+  unfold lower_fun. pose proof (add_label_le LNoOverflow st) as M1. pose proof (single_blk LNoOverflow st) as B1.
+  destruct (add_label LNoOverflow st) as [no st']. cbn [fst snd] in M1, B1.
+  destruct (lower_stmts (is_you_senv w (fn_params fd)) None (fn_body fd) st') as [[[cc S1] st2] ex] eqn:El.
+  destruct (proj2 lower_stmts_defs _ _ _ _ _ _ _ _ El) as [M2 [F2 D2]].
+  intros E. inversion E; subst c st1; clear E. split; [stle|].
+  exists (no :: deflabels cc). split; [reflexivity|].
+  set (bs := [(st, st', [no]); (st', st2, deflabels cc)]).
+  assert (Ok : Forall blk_ok bs) by (unfold bs; repeat (apply Forall_cons; [first [exact B1 | (split; assumption)]|]); apply Forall_nil).
+  assert (Eq : no :: deflabels cc = flat_map blk_labels bs) by (cbn [bs flat_map blk_labels snd app]; now rewrite app_nil_r).
+  rewrite Eq. split.
+  - apply blocks_between; [exact Ok|]. unfold bs. repeat (apply Forall_cons; [split; stle|]). apply Forall_nil.
+  - apply blocks_nodup; [exact Ok|]. unfold bs.
+    repeat (apply FOP_cons; [repeat (apply Forall_cons; [cbn [blk_sep]; first [left; stle | right; stle]|]); apply Forall_nil|]).
+    apply FOP_nil.
+Qed.
+Lemma lower_funs_defs w funs : forall ord st, fresh_st st -> NoDup ord ->
+  exists st', st_le st st' /\ NoDup (deflabels (lower_funs w funs ord st)) /\
+    Forall (fun x => (exists f, In f ord /\ x = func_label f) \/ between st st' x) (deflabels (lower_funs w funs ord st)).
+Proof.
+  induction ord as [|f r IH]; intros st Fr Nd; cbn [lower_funs].
+  - exists st. split; [apply st_le_refl|]. split; constructor.
+  - inversion Nd as [|? ? Nf Ndr]; subst. destruct (nth_error funs f) as [fd|].
+    2:{ exists st. split; [apply st_le_refl|]. split; constructor. }
+    destruct (lower_fun w f fd st) as [c st1] eqn:El. destruct (lower_fun_defs w f fd st c st1 El) as [M1 [L [EL [FL DL]]]].
+    destruct (IH st1 (fresh_st_le st st1 Fr M1) Ndr) as [st' [M2 [Dr Fr']]].
+    exists st'. split; [eapply st_le_trans; eauto|]. rewrite deflabels_app, EL. cbn [app].
+    rewrite Forall_forall in FL, Fr'.
+    assert (Dis : forall x, In x L -> In x (deflabels (lower_funs w funs r st1)) -> False).
+    { intros x I1 I2. specialize (FL x I1). destruct (Fr' x I2) as [[g [_ ->]] | B].
+      - exact (func_not_between st st1 g Fr FL).
+      - unfold between in *. lia. }
+    split.
+    + constructor.
+      * intro I. apply in_app_or in I. destruct I as [I|I].
+        -- exact (func_not_between st st1 f Fr (FL _ I)).
+        -- destruct (Fr' _ I) as [[g [Ig Eg]] | B].
+           ++ unfold func_label in Eg. inversion Eg; subst g. contradiction.
+           ++ exact (func_not_between st1 st' f (fresh_st_le st st1 Fr M1) B).
+      * apply NoDup_app_intro; assumption.
+    + apply Forall_forall. intros x [<- | I]; [left; exists f; split; [left; reflexivity | reflexivity]|].
+      apply in_app_or in I. destruct I as [I|I].
+      * right. specialize (FL x I). unfold between in *. specialize (M2 (fst x)). lia.
+      * destruct (Fr' x I) as [[g [Ig ->]] | B]; [left; exists g; split; [right; exact Ig | reflexivity]|].
+        right. unfold between in *. specialize (M1 (fst x)). lia.
+Qed.
+Lemma add_new_nodup new : forall seen, NoDup seen -> NoDup (add_new seen new).
+Proof.
+  induction new as [|f r IH]; intros seen Nd; cbn [add_new]; [exact Nd|]. apply IH.
+  destruct (existsb (Nat.eqb f) seen) eqn:E; [exact Nd|].
+  apply NoDup_app_intro; [exact Nd | constructor; [intros [] | constructor]|].
+  intros x I1 [E' | []]. subst x. assert (existsb (Nat.eqb f) seen = true) by (apply existsb_exists; exists f; split; [exact I1 | apply Nat.eqb_refl]).
+  congruence.
+Qed.
+Lemma gen_order_nodup funs fuel : forall seen k, NoDup seen -> NoDup (gen_order fuel funs seen k).
+Proof.
+  induction fuel as [|n IH]; intros seen k Nd; cbn [gen_order]; [exact Nd|].
+  destruct (nth_error seen k); [|exact Nd]. apply IH. apply add_new_nodup. exact Nd.
+Qed.
+Theorem program_labels_nodup w funs : NoDup (deflabels (lower_program w funs)).
+Proof.
+  unfold lower_program.
+  destruct (lower_funs_defs w funs (program_order funs) st_init) as [st' [_ [D _]]]; [intros f; cbn; lia | | exact D].
+  unfold program_order. apply gen_order_nodup. constructor; [intros [] | constructor].
+Qed.
+
+(* the state section hidc emits: ap, fp, r0, r1, r2, the stack, the entry arguments (last parameter
+   first), the return address of the entry point (all_is_win) *)
+Record init_ok (w stack : Z) (args : list Z) (ra : Z) (m : mem) : Prop := {
+  io_wf : wf_mem m;
+  io_ap : Machine.lw w m 0 = 5 * w;                                     (* ap: .word stack_start *)
+  io_fp : Machine.lw w m w = (stack + Z.of_nat (length args) + 6) * w;  (* fp: .word stack_end *)
+  io_sz : (stack + Z.of_nat (length args) + 6) * w <= msize m;
+  io_ra : Machine.lw w m ((stack + Z.of_nat (length args) + 5) * w) = ra;
+  io_args : forall k, (k < length args)%nat ->
+            Machine.sgn w (Machine.lw w m ((stack + Z.of_nat (length args) + 6) * w - (Z.of_nat k + 2) * w)) = nth k args 0 }.
+(* what the machine shows after the program's own output *)
+Definition result_flags (res : cres) : list event :=
+  match res with
+  | CRet _ => [EFlag 0]                              (* all_is_win: flag win *)
+  | CFault FDivZero => [EFlag 3; EFlag 1]            (* flag division_by_zero; flag error *)
+  | CFault FStackOverflow => [EFlag 2; EFlag 1]      (* flag stack_overflow; flag error *)
+  end.
+(* the static side conditions, executable: every generated function exists, is well scoped, calls
+   generated functions with the right number of arguments, and has a guard constant that is a word;
+   the entry point comes first *)
+Section Program.
+Variable w : Z.
+Hypothesis Hw : 2 <= w.
+Variable funs : list fundef.
+Variable stack : Z.                (* hidc -s: words of stack *)
+Variable args : list Z.            (* the values of the entry point's parameters *)
+Variable dft : Z.                  (* where a `defeat` word would be (not used by the fragment) *)
+Variable cmem : mem.
+Let C := lower_program w funs.
+Let lib := size C.
+Let R := hidc_regs w dft lib.
+Let ext0 : label -> Z := fun _ => 0.
+Let prog := resolve R ext0 0 C ++ stdlib_code w lib.
+Let code := code_of prog.
+Notation act := (Machine.act w code cmem).
+Notation Halts := (HidV.Sphinx.Halts.Halts act).
+Notation runs := (HidV.Sphinx.Halts.runs act).
+Notation csteps := (HidV.Sphinx.Halts.csteps act).
+Let n := Z.of_nat (length args).
+
+(* THE PROGRAM THEOREM.  For every program of the fragment that passes the static check, every
+   stack size, all argument values: if the source semantics (with the stack accounting of the
+   checked build) says that the entry point, called with d = (stack + n + 1) * w bytes of stack,
+   emits the bytes evs and returns / faults, then the machine started at address 0 on the image
+   hidc lays out emits exactly these bytes, then the flags of all_is_win (resp. of the fault
+   stub), then sleeps forever: it never halts. *)
+Theorem program_lowering_correct evs res m0 :
+  prog_ok_b w funs (length args) = true ->
+  0 <= stack -> lib + stdlib_len <= Machine.W w -> (stack + n + 6) * w < Machine.W w / 2 ->
+  init_ok w stack args (lib + off_all_is_win) m0 ->
+  callf w funs ((stack + n + 1) * w) 0 args evs res ->
+  exists m', runs (mk 0 m0) (map EOut evs ++ result_flags res) (tnt lib m') /\
+             ~ Halts (mk 0 m0) /\
+             forall k, csteps (mk 0 m0) (map EOut evs ++ result_flags res ++ repeat sleep_ev k) (tnt lib m').
+Proof.
+  intros Hok Hst Hlib Hfp Hin Hc. assert (Hw1 : 1 <= w) by lia.
+  unfold prog_ok_b in Hok. fold C in Hok. set (ord := program_order funs) in *.
+  apply andb_true_iff in Hok. destruct Hok as [Hok Hcf0].
+  apply andb_true_iff in Hok. destruct Hok as [Hhd Hfs]. pose proof (program_labels_nodup w funs) as Hnd. fold C in Hnd.
+  assert (Hsz : 0 <= lib) by apply size_nonneg.
+  assert (HWp : Machine.W w / 2 < Machine.W w) by (pose proof (W_even w Hw1); pose proof (half_pos w Hw1); lia).
+  assert (Hlen : stdlib_len = 108) by reflexivity.
+  assert (ext_range : forall x, 0 <= ext0 x < Machine.W w) by (intros x; unfold ext0; lia).
+  assert (CA : code_at code 0 (resolve R ext0 0 C)) by apply code_at_code_of_app.
+  destruct (resolved_placed code R ext0 0 C _ ext_range Hnd CA ltac:(lia) ltac:(fold lib; lia)) as [P LR].
+  set (lab := labenv ext0 0 C) in *.
+  assert (Elen : lib = Z.of_nat (length (resolve R ext0 0 C))) by (unfold resolve; rewrite length_instrs; reflexivity).
+  assert (Hl : lib_hyps w R code).
+  { unfold lib_hyps, R, hidc_regs; cbn [a_fp a_r0 a_r1 a_r2 a_lib a_ap]. repeat split; try lia.
+    apply (lib_at_after w _ lib Elen). }
+  (* the callable functions: those that are generated *)
+  set (cf := fun f k => cf_b funs ord f k = true).
+  assert (Ovalid : Forall (fun f => nth_error funs f <> None) ord).
+  { apply Forall_forall. intros f I. rewrite forallb_forall in Hfs. specialize (Hfs f I). unfold fun_ok_b in Hfs.
+    destruct (nth_error funs f); [discriminate | discriminate Hfs]. }
+  assert (Cfk : forall f k, cf f k -> exists fd st, nth_error funs f = Some fd /\ fn_params fd = k /\
+            0 <= fun_need w fd < Machine.W w / 2 /\ placed R lab code (fst (lower_fun w f fd st)) (lab (func_label f)) /\
+            ssscoped w (lib_hyps w R code) cf k 0%nat false (fn_body fd)).
+  { intros f k Hc'. unfold cf, cf_b in Hc'. apply andb_true_iff in Hc'. destruct Hc' as [Hin' Hk].
+    apply existsb_exists in Hin'. destruct Hin' as [g [Ig Eg]]. apply Nat.eqb_eq in Eg. subst g.
+    destruct (lower_funs_placed R lab code w funs ord st_init 0 P Ovalid f Ig) as [fd [stf [Efd Pf]]].
+    rewrite Efd in Hk. apply Nat.eqb_eq in Hk.
+    rewrite forallb_forall in Hfs. specialize (Hfs f Ig). unfold fun_ok_b in Hfs. rewrite Efd in Hfs.
+    apply andb_true_iff in Hfs. destruct Hfs as [Hfs Hsc]. apply andb_true_iff in Hfs. destruct Hfs as [Hn0 Hn1].
+    apply Z.leb_le in Hn0. apply Z.ltb_lt in Hn1.
+    exists fd, stf. split; [exact Efd|]. split; [exact Hk|]. split; [lia|]. split; [exact Pf|].
+    rewrite <- Hk. apply (proj2 (scoped_b_ok w (cf_b funs ord) (lib_hyps w R code) cf Hl (fun f0 n0 H => H))). exact Hsc. }
+  (* the entry memory *)
+  destruct Hin as [Iwf Iap Ifp Isz Ira Iargs]. fold n in Ifp, Isz, Ira, Iargs.
+  set (F := (stack + n + 6) * w) in *.
+  assert (Hn : 0 <= n) by (unfold n; lia).
+  assert (HF : FP w R m0 = F) by (unfold FP, R, hidc_regs; cbn [a_fp]; exact Ifp).
+  assert (L : regs_ok w R (5 * w) m0).
+  { unfold R, hidc_regs. constructor; cbn [a_r0 a_r1 a_r2 a_fp]; try lia; try exact Iwf;
+      try (apply inb_true; unfold F in *; nia).
+    change (FP w (mkregs 0 w (2 * w) (3 * w) (4 * w) dft lib) m0) with (FP w R m0). rewrite HF. unfold F. nia. }
+  assert (E0 : lab (func_label 0) = 0).
+  { unfold C, lower_program in P. fold ord in P. destruct ord as [|[|?] r]; try discriminate Hhd.
+    cbn [lower_funs] in P. inversion Ovalid as [|? ? H0 _]; subst. destruct (nth_error funs 0) as [fd0|]; [|contradiction].
+    unfold lower_fun in P. destruct (add_label LNoOverflow st_init) as [no st']. destruct (lower_stmts _ None (fn_body fd0) st') as [[[cc S1] st2] ex].
+    cbn [app placed] in P. tauto. }
+  pose proof (proj2 (proj2 (stmts_runs w R (5 * w) w Hw code cmem lab LR funs cf eq_refl Cfk)) _ 0%nat args evs res Hc m0 Hl Hcf0 L) as Sp.
+  destruct (Sp ltac:(rewrite HF; unfold F; lia) ltac:(rewrite HF; unfold F; nia) ltac:(rewrite HF; exact Isz)) as [m' Res].
+  { intros _. unfold R, hidc_regs; cbn [a_ap]. exact Iap. }
+  { intros k Hk. rewrite HF. apply Iargs. exact Hk. }
+  rewrite E0, HF in Res.
+  assert (Abs : forall pcs flags, runs (mk 0 m0) (map EOut evs) (mk pcs m') -> absorbed w code cmem lib (mk pcs m') flags ->
+            runs (mk 0 m0) (map EOut evs ++ flags) (tnt lib m') /\ ~ Halts (mk 0 m0) /\
+            forall k, csteps (mk 0 m0) (map EOut evs ++ flags ++ repeat sleep_ev k) (tnt lib m')).
+  { intros pcs flags Rn [Nh [Rt [_ Cs]]]. cbn [mm] in Rt, Cs.
+    destruct (runs_not_halts act _ _ _ Rn Nh) as [N0 C0].
+    split; [eapply runs_trans; [exact Rn | exact Rt]|]. split; [exact N0|].
+    intros k. eapply csteps_app; [exact C0 | apply Cs]. }
+  destruct Hl as [_ [_ [_ [_ [CAl [BR _]]]]]]. unfold R, hidc_regs in CAl, BR; cbn [a_lib] in CAl, BR.
+  exists m'. destruct res as [v|ft].
+  - destruct Res as [Rn _]. replace (F - w) with ((stack + n + 5) * w) in Rn by (unfold F; lia). rewrite Ira in Rn.
+    apply (Abs _ _ Rn). apply (all_is_win_absorbing w code cmem lib Hw CAl BR m').
+  - unfold R, hidc_regs in Res; cbn [a_lib] in Res. apply (Abs _ _ Res).
+    destruct ft; cbn [fault_off result_flags];
+      [apply (division_by_zero_absorbing w code cmem lib Hw CAl BR m') | apply (stack_overflow_absorbing w code cmem lib Hw CAl BR m')].
+Qed.
+(* in particular (C03 for these programs): the compiled program never halts *)
+Corollary program_never_halts evs res m0 :
+  prog_ok_b w funs (length args) = true ->
+  0 <= stack -> lib + stdlib_len <= Machine.W w -> (stack + n + 6) * w < Machine.W w / 2 ->
+  init_ok w stack args (lib + off_all_is_win) m0 ->
+  callf w funs ((stack + n + 1) * w) 0 args evs res ->
+  ~ Halts (mk 0 m0).
+Proof.
+  intros H1 H2 H3 H4 H5 H6. destruct (program_lowering_correct evs res m0 H1 H2 H3 H4 H5 H6) as [m' [_ [N _]]]. exact N.
+Qed.
+End Program.
 
 (* ================================================================================= *)
 (* satisfiability examples (w = 2, hidc's register layout, a 64-byte state section)     *)
@@ -2611,15 +3003,15 @@ Definition sx_code : list aline := fst (lower_body sx_S sx_ss sx_st).
 Definition sx_ra : Z := size sx_code.            (* the caller: an absorbing stub right after the body *)
 Definition sx_ext (l : label) : Z := 0.
 Definition sx_prog : list instr := resolve (hidc_regs 2 62 200) sx_ext 0 sx_code ++ [IJ (Imm sx_ra); IHalt].
-(* fp = 60; return address at 58; a = 5 at 56, b = 7 at 54, c = 2 at 52 *)
+(* ap = 40 (the stack area starts there); fp = 60; return address at 58; a = 5 at 56, b = 7 at 54, c = 2 at 52 *)
 Definition sx_mem : mem :=
-  Machine.sw 2 (Machine.sw 2 (Machine.sw 2 (Machine.sw 2 (Machine.sw 2 ex_zero 2 60) 58 sx_ra) 56 5) 54 7) 52 2.
+  Machine.sw 2 (Machine.sw 2 (Machine.sw 2 (Machine.sw 2 (Machine.sw 2 (Machine.sw 2 ex_zero 0 40) 2 60) 58 sx_ra) 56 5) 54 7) 52 2.
 
-Example sx_exec : exists s1, execs 2 sx_ss sx_s0 sx_out ONormal s1.
+Example sx_exec : exists s1, execs 2 [] 20 sx_ss sx_s0 sx_out ONormal s1.
 Proof.
-  destruct (istmts 2 40 sx_ss sx_s0) as [[[e out] s1]|] eqn:E; [|vm_compute in E; discriminate E].
+  destruct (istmts 2 [] 40 20 sx_ss sx_s0) as [[[e out] s1]|] eqn:E; [|vm_compute in E; discriminate E].
   exists s1. assert (Ee : e = sx_out /\ out = ONormal) by (vm_compute in E; inversion E; split; reflexivity).
-  destruct Ee as [<- <-]. apply (proj2 (interp_sound 2 40)). exact E.
+  destruct Ee as [<- <-]. apply (proj1 (proj2 (interp_sound 2 [] 40))). exact E.
 Qed.
 Lemma sx_wf : wf_senv 2 2 sx_S.
 Proof.
@@ -2636,7 +3028,7 @@ Proof.
   - intros i Hi. destruct i as [|[|[|]]]; cbn in Hi; try lia; vm_compute; reflexivity.
   - intros j Hj. cbn in Hj. lia.
 Qed.
-Lemma sx_scoped lib : ssscoped 2 lib 3 0 false sx_ss.
+Lemma sx_scoped lib cf : ssscoped 2 lib cf 3 0 false sx_ss.
 Proof. cbn. repeat split; try lia; carith. Qed.
 
 (* the theorem applies: the body runs to the return address, emitting the source's output *)
@@ -2644,14 +3036,16 @@ Example body_lowering_ex :
   exists m', HidV.Sphinx.Halts.runs (Machine.act 2 (code_of sx_prog) (zmem 0)) (mk 0 sx_mem) (map EOut sx_out) (mk sx_ra m').
 Proof.
   destruct sx_exec as [s1 Hx].
-  destruct (body_lowering_correct 2 ltac:(lia) (code_of sx_prog) (zmem 0) (hidc_regs 2 62 200) 40 2 sx_ext
+  destruct (body_lowering_correct 2 ltac:(lia) (code_of sx_prog) (zmem 0) (hidc_regs 2 62 200) 40 sx_ext
               ltac:(intros x; vm_compute; split; [discriminate | reflexivity])
-              sx_ss sx_s0 sx_out s1 sx_S sx_st 0 sx_mem ltac:(lia) Hx) as [m' [Rn _]].
+              [] sx_ss 20 sx_s0 sx_out s1 sx_S sx_st 0 sx_mem Hx) as [m' [Rn _]].
   - apply code_at_code_of_app.
   - lia.
   - vm_compute. reflexivity.
   - apply sx_wf.
+  - reflexivity.
   - apply sx_rep.
+  - vm_compute. reflexivity.
   - apply sx_scoped.
   - vm_compute. intro; discriminate.
   - exists m'. replace (Machine.lw 2 sx_mem (LowerBoolProofs.FP 2 (hidc_regs 2 62 200) sx_mem - 2)) with sx_ra in Rn by (vm_compute; reflexivity).
@@ -2681,24 +3075,20 @@ Definition lx_code : list aline := fst (lower_body sx_S lx_ss sx_st).
 Definition lx_lib : Z := size lx_code.              (* the library follows the function *)
 Definition lx_regs : regmap := hidc_regs 2 62 lx_lib.
 Definition lx_prog : list instr := resolve lx_regs sx_ext 0 lx_code ++ stdlib_code 2 lx_lib.
-(* the entry return address is all_is_win, the first label of the library *)
+(* ap = 10 = stack_start; the entry return address is all_is_win, the first label of the library *)
 Definition lx_mem : mem :=
-  Machine.sw 2 (Machine.sw 2 (Machine.sw 2 (Machine.sw 2 (Machine.sw 2 ex_zero 2 60) 58 lx_lib) 56 5) 54 7) 52 2.
+  Machine.sw 2 (Machine.sw 2 (Machine.sw 2 (Machine.sw 2 (Machine.sw 2 (Machine.sw 2 ex_zero 0 10) 2 60) 58 lx_lib) 56 5) 54 7) 52 2.
 
-Example lx_exec : exists s1, execs 2 lx_ss sx_s0 lx_out ONormal s1.
+Example lx_exec : exists s1, execs 2 [] 50 lx_ss sx_s0 lx_out ONormal s1.
 Proof.
-  destruct (istmts 2 10 lx_ss sx_s0) as [[[e out] s1]|] eqn:E; [|vm_compute in E; discriminate E].
+  destruct (istmts 2 [] 10 50 lx_ss sx_s0) as [[[e out] s1]|] eqn:E; [|vm_compute in E; discriminate E].
   exists s1. assert (Ee : e = lx_out /\ out = ONormal) by (vm_compute in E; inversion E; split; reflexivity).
-  destruct Ee as [<- <-]. apply (proj2 (interp_sound 2 10)). exact E.
+  destruct Ee as [<- <-]. apply (proj1 (proj2 (interp_sound 2 [] 10))). exact E.
 Qed.
 Lemma lx_lib_hyps : lib_hyps 2 lx_regs (code_of lx_prog).
 Proof.
   unfold lib_hyps. repeat split; try reflexivity; try (vm_compute; intro; discriminate).
-  intros k Hk. unfold code_of, lx_prog. cbn [lx_regs hidc_regs a_lib].
-  destruct (Z.ltb_spec (lx_lib + k) 0); [unfold lx_lib in *; pose proof (size_nonneg lx_code); lia|].
-  assert (El : length (resolve lx_regs sx_ext 0 lx_code) = Z.to_nat lx_lib) by (vm_compute; reflexivity).
-  rewrite nth_error_app2 by (rewrite El; unfold lx_lib in *; pose proof (size_nonneg lx_code); lia).
-  rewrite El. f_equal. unfold lx_lib in *. pose proof (size_nonneg lx_code). lia.
+  apply (lib_at_after 2 _ lx_lib). vm_compute. reflexivity.
 Qed.
 Lemma lx_rep : rep 2 lx_regs 10 sx_S sx_s0 lx_mem.
 Proof.
@@ -2712,14 +3102,16 @@ Example lib_body_lowering_ex :
   exists m', HidV.Sphinx.Halts.runs (Machine.act 2 (code_of lx_prog) (zmem 0)) (mk 0 lx_mem) (map EOut lx_out) (mk lx_lib m').
 Proof.
   destruct lx_exec as [s1 Hx].
-  destruct (body_lowering_correct 2 ltac:(lia) (code_of lx_prog) (zmem 0) lx_regs 10 2 sx_ext
+  destruct (body_lowering_correct 2 ltac:(lia) (code_of lx_prog) (zmem 0) lx_regs 10 sx_ext
               ltac:(intros x; vm_compute; split; [discriminate | reflexivity])
-              lx_ss sx_s0 lx_out s1 sx_S sx_st 0 lx_mem ltac:(lia) Hx) as [m' [Rn _]].
+              [] lx_ss 50 sx_s0 lx_out s1 sx_S sx_st 0 lx_mem Hx) as [m' [Rn _]].
   - apply code_at_code_of_app.
   - lia.
   - vm_compute. reflexivity.
   - apply sx_wf.
+  - reflexivity.
   - apply lx_rep.
+  - vm_compute. reflexivity.
   - cbn. repeat split; try lia; try apply lx_lib_hyps; carith.
   - vm_compute. intro; discriminate.
   - exists m'. replace (Machine.lw 2 lx_mem (LowerBoolProofs.FP 2 lx_regs lx_mem - 2)) with lx_lib in Rn by (vm_compute; reflexivity).
@@ -2735,3 +3127,96 @@ Example lib_body_vm_run_ex :
   end.
 Proof. vm_compute. reflexivity. Qed.
 End ExamplesLib.
+
+(* ---------- a whole program: recursion, division, all three ways to end ---------- *)
+Section ExamplesProg.
+(* int f1(int p0) { if (p0 < 2) { return 1; } int r = f1(p0 - 1); return r * p0; }
+   empty @is_you(int a0) { int x = f1(a0); writeln(x); int q = x / (a0 - 5); writeln(q % 7); return; } *)
+Definition px_funs : list fundef :=
+  [ mkfun 1 (SCons (SCall DDecl 1 [OVar 0])
+            (SCons (SWriteI true (OVar 1))
+            (SCons (SDeclDiv SDiv (OVar 1) (OArith SSub (OVar 0) (OLit 5)))
+            (SCons (SDeclDiv SMod (OVar 2) (OLit 7))
+            (SCons (SWriteI true (OVar 3))
+            (SCons (SReturn None) SNil))))));
+    mkfun 1 (SCons (SIf (BCmp SLt (OVar 0) (OLit 2)) (SCons (SReturn (Some (OLit 1))) SNil) SNil)
+            (SCons (SCall DDecl 1 [OArith SSub (OVar 0) (OLit 1)])
+            (SCons (SReturn (Some (OArith SMul (OVar 1) (OVar 0)))) SNil))) ].
+Definition px_code : list aline := lower_program 2 px_funs.
+Definition px_lib : Z := size px_code.
+Definition px_prog : list instr := resolve (hidc_regs 2 0 px_lib) (fun _ => 0) 0 px_code ++ stdlib_code 2 px_lib.
+(* the image of hidc's state section for `-s stack`: ap, fp, r0..r2, the stack, the argument, all_is_win *)
+Definition px_mem (stack a0 : Z) : mem :=
+  let F := (stack + 7) * 2 in
+  Machine.sw 2 (Machine.sw 2 (Machine.sw 2 (Machine.sw 2 (mkmem F (FMapPositive.PositiveMap.empty Z)) 0 10) 2 F) (F - 2) px_lib) (F - 4) a0.
+Lemma px_init stack a0 : 0 <= stack <= 100 -> - 1000 <= a0 <= 1000 -> init_ok 2 stack [a0] (px_lib + off_all_is_win) (px_mem stack a0).
+Proof.
+  intros Hs Ha. set (F := (stack + 7) * 2).
+  assert (Wz : wf_mem (mkmem F (FMapPositive.PositiveMap.empty Z))) by (intros a; unfold getb; cbn [mdata]; rewrite FMapPositive.PositiveMap.gempty; lia).
+  assert (HW : Machine.W 2 = 65536) by reflexivity.
+  unfold px_mem. fold F. constructor; cbn [length]; change (Z.of_nat 1) with 1.
+  - repeat (apply (wf_sw 2); [|lia]). exact Wz.
+  - rewrite !(lw_sw_other 2) by lia. rewrite (lw_sw_same 2) by lia. reflexivity.
+  - rewrite !(lw_sw_other 2) by lia. rewrite (lw_sw_same 2) by lia. unfold Machine.wrap. rewrite HW. rewrite Z.mod_small by lia. lia.
+  - rewrite !msize_sw. cbn [msize]. lia.
+  - replace ((stack + 1 + 5) * 2) with (F - 2) by (unfold F; lia). rewrite (lw_sw_other 2) by lia. rewrite (lw_sw_same 2) by lia.
+    unfold off_all_is_win. rewrite Z.add_0_r. vm_compute. reflexivity.
+  - intros k Hk. destruct k as [|k]; [|cbn in Hk; lia]. cbn [nth]. change (Z.of_nat 0) with 0.
+    replace ((stack + 1 + 6) * 2 - (0 + 2) * 2) with (F - 4) by (unfold F; lia). rewrite (lw_sw_same 2) by lia.
+    unfold Machine.sgn, Machine.wrap. rewrite HW. change (65536 / 2) with 32768.
+    destruct (Z.ltb_spec (a0 mod 65536) 32768); lia.
+Qed.
+Lemma px_ok : prog_ok_b 2 px_funs 1 = true.
+Proof. vm_compute. reflexivity. Qed.
+(* the source semantics, computed: 4! = 24, 24 / (4 - 5) = -24, -24 % 7 = 4;  5! = 120, then 120 / 0;
+   with 8 words of stack the recursion does not fit *)
+Definition px_out4 : list Z := [50; 52; 10; 52; 10].
+Definition px_out5 : list Z := [49; 50; 48; 10].
+Lemma px_call stack a0 evs res : icall 2 px_funs 100 ((stack + 2) * 2) 0 [a0] = Some (evs, res) ->
+  callf 2 px_funs ((stack + Z.of_nat (length [a0]) + 1) * 2) 0 [a0] evs res.
+Proof. intros H. apply (proj2 (proj2 (interp_sound 2 px_funs 100))). cbn [length]. change (Z.of_nat 1) with 1. replace (stack + 1 + 1) with (stack + 2) by lia. exact H. Qed.
+Notation px_act := (Machine.act 2 (code_of px_prog) (zmem 0)).
+Example program_returns_ex : exists m',
+  HidV.Sphinx.Halts.runs px_act (mk 0 (px_mem 40 4)) (map EOut px_out4 ++ [EFlag 0]) (tnt px_lib m') /\
+  ~ HidV.Sphinx.Halts.Halts px_act (mk 0 (px_mem 40 4)).
+Proof.
+  destruct (program_lowering_correct 2 ltac:(lia) px_funs 40 [4] 0 (zmem 0) px_out4 (CRet None) (px_mem 40 4) px_ok ltac:(lia)
+              ltac:(vm_compute; intro; discriminate) ltac:(vm_compute; reflexivity) (px_init 40 4 ltac:(lia) ltac:(lia))
+              (px_call 40 4 _ _ ltac:(vm_compute; reflexivity))) as [m' [Rn [Nh _]]].
+  exists m'. split; [exact Rn | exact Nh].
+Qed.
+Example program_divides_by_zero_ex : exists m',
+  HidV.Sphinx.Halts.runs px_act (mk 0 (px_mem 40 5)) (map EOut px_out5 ++ [EFlag 3; EFlag 1]) (tnt px_lib m') /\
+  ~ HidV.Sphinx.Halts.Halts px_act (mk 0 (px_mem 40 5)).
+Proof.
+  destruct (program_lowering_correct 2 ltac:(lia) px_funs 40 [5] 0 (zmem 0) px_out5 (CFault FDivZero) (px_mem 40 5) px_ok ltac:(lia)
+              ltac:(vm_compute; intro; discriminate) ltac:(vm_compute; reflexivity) (px_init 40 5 ltac:(lia) ltac:(lia))
+              (px_call 40 5 _ _ ltac:(vm_compute; reflexivity))) as [m' [Rn [Nh _]]].
+  exists m'. split; [exact Rn | exact Nh].
+Qed.
+Example program_overflows_ex : exists m',
+  HidV.Sphinx.Halts.runs px_act (mk 0 (px_mem 8 4)) [EFlag 2; EFlag 1] (tnt px_lib m') /\
+  ~ HidV.Sphinx.Halts.Halts px_act (mk 0 (px_mem 8 4)).
+Proof.
+  destruct (program_lowering_correct 2 ltac:(lia) px_funs 8 [4] 0 (zmem 0) [] (CFault FStackOverflow) (px_mem 8 4) px_ok ltac:(lia)
+              ltac:(vm_compute; intro; discriminate) ltac:(vm_compute; reflexivity) (px_init 8 4 ltac:(lia) ltac:(lia))
+              (px_call 8 4 _ _ ltac:(vm_compute; reflexivity))) as [m' [Rn [Nh _]]].
+  exists m'. split; [exact Rn | exact Nh].
+Qed.
+(* the same three runs on the verified VM *)
+Definition px_bytes (stack a0 : Z) : list Z := map (fun a => getb (px_mem stack a0) (Z.of_nat a)) (seq 0 (Z.to_nat ((stack + 7) * 2))).
+Example program_vm_run_ex :
+  match run_program 2 (px_bytes 40 4) [] px_prog [] mon_none 4000 with
+  | OAbsorbed evs _ _ => firstn 6 evs = map EOut px_out4 ++ [EFlag 0]
+  | _ => False
+  end /\
+  match run_program 2 (px_bytes 40 5) [] px_prog [] mon_none 4000 with
+  | OAbsorbed evs _ _ => firstn 6 evs = map EOut px_out5 ++ [EFlag 3; EFlag 1]
+  | _ => False
+  end /\
+  match run_program 2 (px_bytes 8 4) [] px_prog [] mon_none 4000 with
+  | OAbsorbed evs _ _ => firstn 2 evs = [EFlag 2; EFlag 1]
+  | _ => False
+  end.
+Proof. vm_compute. repeat split; reflexivity. Qed.
+End ExamplesProg.
